@@ -1,1 +1,1788 @@
-(* C04 - to be filled *)
+(* C04: lemmas.  The first parts (frame lemmas about LdSem, how generated names end, names no
+   generated symbol can have) are shared by the link-level theorems of C03, C10 and the *Link files. *)
+From Slinky Require Import Model.Types Model.Generated Model.Runtime Model.Style Model.Script Model.Writer Model.LdSem.
+From Slinky Require Import Spec.C17 Spec.C04 Proofs.C06 Proofs.C18 Proofs.C17 Proofs.LdLemmas.
+From Coq Require Import Lia ZArith.
+Local Open Scope Z_scope.
+
+(* ====================================================================== *)
+(* LdSem: what a statement leaves unchanged                                *)
+(* ====================================================================== *)
+
+Section Frames.
+  Variables (env : list (string * Z)) (senv : list osec) (ext : list (string * Z)) (final : bool).
+
+  Notation top := (exec_top_stmt env senv ext final).
+  Notation runl := (run env senv ext final).
+
+  Lemma run_app a b st : runl (a ++ b) st = runl b (runl a st).
+  Proof. unfold run. apply fold_left_app. Qed.
+
+  Lemma run_cons s l st : runl (s :: l) st = runl l (top st s).
+  Proof. reflexivity. Qed.
+
+  Lemma run_nil st : runl [] st = st.
+  Proof. reflexivity. Qed.
+
+  Lemma run_one s st : runl [s] st = top st s.
+  Proof. reflexivity. Qed.
+
+  (* ---------- assign ---------- *)
+
+  Lemma assign_cases p sym r text st :
+    assign ext final p sym r text st = st \/
+    (exists v, r = Ok v /\ assign ext final p sym r text st = set_sym sym v p st) \/
+    (exists e, assign ext final p sym r text st = add_err e st).
+  Proof.
+    unfold assign. destruct r as [v|e].
+    - destruct (p && is_some (lookup sym ext))%bool; [left; reflexivity|right; left; eauto].
+    - destruct e; try (destruct (final && negb p)%bool; [right; right; eauto | left; reflexivity]).
+      right; right; eauto.
+  Qed.
+
+  Lemma assign_ok sym v text st :
+    assign ext final false sym (Ok v) text st = set_sym sym v false st.
+  Proof. reflexivity. Qed.
+
+  Lemma assign_syms_other p sym r text st x :
+    sym <> x -> lookup x (l_syms (assign ext final p sym r text st)) = lookup x (l_syms st).
+  Proof.
+    intro H. destruct (assign_cases p sym r text st) as [E|[[v [_ E]]|[e E]]]; rewrite E; try reflexivity.
+    apply lookup_set_sym_other. assumption.
+  Qed.
+
+  Lemma assign_dot p sym r text st : l_dot (assign ext final p sym r text st) = l_dot st.
+  Proof. destruct (assign_cases p sym r text st) as [E|[[v [_ E]]|[e E]]]; rewrite E; reflexivity. Qed.
+
+  Lemma assign_secs p sym r text st : l_secs (assign ext final p sym r text st) = l_secs st.
+  Proof. destruct (assign_cases p sym r text st) as [E|[[v [_ E]]|[e E]]]; rewrite E; reflexivity. Qed.
+
+  Lemma assign_placed p sym r text st : l_placed (assign ext final p sym r text st) = l_placed st.
+  Proof. destruct (assign_cases p sym r text st) as [E|[[v [_ E]]|[e E]]]; rewrite E; reflexivity. Qed.
+
+  Lemma assign_remaining p sym r text st : l_remaining (assign ext final p sym r text st) = l_remaining st.
+  Proof. destruct (assign_cases p sym r text st) as [E|[[v [_ E]]|[e E]]]; rewrite E; reflexivity. Qed.
+
+  Lemma assign_discarded p sym r text st : l_discarded (assign ext final p sym r text st) = l_discarded st.
+  Proof. destruct (assign_cases p sym r text st) as [E|[[v [_ E]]|[e E]]]; rewrite E; reflexivity. Qed.
+
+  Lemma assign_errors p sym r text st :
+    exists new, l_errors (assign ext final p sym r text st) = (l_errors st ++ new)%list.
+  Proof.
+    destruct (assign_cases p sym r text st) as [E|[[v [_ E]]|[e E]]]; rewrite E.
+    - exists []. rewrite app_nil_r. reflexivity.
+    - exists []. rewrite app_nil_r. reflexivity.
+    - exists [e]. reflexivity.
+  Qed.
+
+  (* ---------- statements inside an output section ---------- *)
+
+  Notation secs vma sub name := (exec_sec_stmt env senv ext final vma sub name).
+
+  (* a view of the state that an input statement changes in a known way *)
+  Lemma sec_stmt_cases vma sub name ss s :
+    (exists p h r sym e, s = SAssign p h r sym e /\
+        secs vma sub name ss s =
+        SState (s_off ss) (s_contents ss)
+               (assign ext final p sym (eval_expr env senv ext (s_st ss) (vma + s_off ss) e) (render_expr e) (s_st ss))) \/
+    (exists k path member sect wild off' pls c, s = SInput k path member sect wild /\
+        place vma sub name (filter (sel false path member sect wild) (l_remaining (s_st ss))) (s_off ss) []
+              (s_contents ss) = (off', pls, c) /\
+        secs vma sub name ss s =
+        SState off' c
+          (LState (l_dot (s_st ss)) (l_syms (s_st ss)) (l_provided (s_st ss)) (l_secs (s_st ss))
+                  (l_placed (s_st ss) ++ pls)
+                  (filter (fun u => negb (sel false path member sect wild u)) (l_remaining (s_st ss)))
+                  (l_discarded (s_st ss)) (l_errors (s_st ss)))) \/
+    (s_st (secs vma sub name ss s) = s_st ss /\
+     (forall p h r sym e, s <> SAssign p h r sym e) /\ (forall k p m t w, s <> SInput k p m t w)).
+  Proof.
+    destruct s; try (right; right; repeat split; [intros; discriminate | intros; discriminate]).
+    - left. repeat eexists.
+    - right; right. repeat split; try (intros; discriminate). simpl. destruct (String.eqb sym "."); reflexivity.
+    - right; left. simpl.
+      destruct (place vma sub name (filter (sel false path member sect wild) (l_remaining (s_st ss))) (s_off ss) []
+                      (s_contents ss)) as [[off' pls] c] eqn:E.
+      exists keep, path, member, sect, wild, off', pls, c. auto.
+  Qed.
+
+  Lemma sec_stmt_syms vma sub name ss s x :
+    assigns x s = false ->
+    lookup x (l_syms (s_st (secs vma sub name ss s))) = lookup x (l_syms (s_st ss)).
+  Proof.
+    intro H. destruct (sec_stmt_cases vma sub name ss s)
+      as [[p [h [r [sym [e [Es E]]]]]] | [[k [path [member [sect [wild [off' [pls [c [Es [Ep E]]]]]]]]]] | [E _]]].
+    - subst s. rewrite E. simpl in *. apply assign_syms_other. apply String.eqb_neq. assumption.
+    - rewrite E. reflexivity.
+    - rewrite E. reflexivity.
+  Qed.
+
+  Lemma sec_stmt_dot vma sub name ss s : l_dot (s_st (secs vma sub name ss s)) = l_dot (s_st ss).
+  Proof.
+    destruct (sec_stmt_cases vma sub name ss s)
+      as [[p [h [r [sym [e [Es E]]]]]] | [[k [path [member [sect [wild [off' [pls [c [Es [Ep E]]]]]]]]]] | [E _]]];
+      rewrite E; try reflexivity. apply assign_dot.
+  Qed.
+
+  Lemma sec_stmt_secs vma sub name ss s : l_secs (s_st (secs vma sub name ss s)) = l_secs (s_st ss).
+  Proof.
+    destruct (sec_stmt_cases vma sub name ss s)
+      as [[p [h [r [sym [e [Es E]]]]]] | [[k [path [member [sect [wild [off' [pls [c [Es [Ep E]]]]]]]]]] | [E _]]];
+      rewrite E; try reflexivity. apply assign_secs.
+  Qed.
+
+  Lemma sec_stmt_errors vma sub name ss s :
+    exists new, l_errors (s_st (secs vma sub name ss s)) = (l_errors (s_st ss) ++ new)%list.
+  Proof.
+    destruct (sec_stmt_cases vma sub name ss s)
+      as [[p [h [r [sym [e [Es E]]]]]] | [[k [path [member [sect [wild [off' [pls [c [Es [Ep E]]]]]]]]]] | [E _]]];
+      rewrite E; try (exists []; rewrite app_nil_r; reflexivity). apply assign_errors.
+  Qed.
+
+  Lemma sec_fold_syms vma sub name body x : forall ss,
+    existsb (assigns x) body = false ->
+    lookup x (l_syms (s_st (fold_left (secs vma sub name) body ss))) = lookup x (l_syms (s_st ss)).
+  Proof.
+    induction body as [|s body IH]; intros ss H; [reflexivity|]. simpl in H. apply orb_false_iff in H.
+    destruct H as [H1 H2]. simpl. rewrite IH by assumption. apply sec_stmt_syms. assumption.
+  Qed.
+
+  Lemma sec_fold_dot vma sub name body : forall ss,
+    l_dot (s_st (fold_left (secs vma sub name) body ss)) = l_dot (s_st ss).
+  Proof. induction body as [|s body IH]; intro ss; [reflexivity|]. simpl. rewrite IH. apply sec_stmt_dot. Qed.
+
+  Lemma sec_fold_secs vma sub name body : forall ss,
+    l_secs (s_st (fold_left (secs vma sub name) body ss)) = l_secs (s_st ss).
+  Proof. induction body as [|s body IH]; intro ss; [reflexivity|]. simpl. rewrite IH. apply sec_stmt_secs. Qed.
+
+  Lemma sec_fold_errors vma sub name body : forall ss,
+    exists new, l_errors (s_st (fold_left (secs vma sub name) body ss)) = (l_errors (s_st ss) ++ new)%list.
+  Proof.
+    induction body as [|s body IH]; intro ss; [exists []; rewrite app_nil_r; reflexivity|]. simpl.
+    destruct (IH (secs vma sub name ss s)) as [n1 E1]. destruct (sec_stmt_errors vma sub name ss s) as [n2 E2].
+    exists (n2 ++ n1)%list. rewrite E1, E2, app_assoc. reflexivity.
+  Qed.
+
+  (* ---------- an output section ---------- *)
+
+  Definition outsec_vma (addr : option expr) (sub : option N) (body : list stmt) (st : lstate) : res Z :=
+    match addr with
+    | Some e => eval_expr env senv ext st (l_dot st) e
+    | None => Ok (align_up (l_dot st) (body_align (option_map Z.of_N sub) body (l_remaining st) 1))
+    end.
+
+  Definition outsec_body (name : string) (sub : option N) (body : list stmt) (vma : Z) (st : lstate) : sstate :=
+    fold_left (secs vma (option_map Z.of_N sub) name) body (SState 0 false st).
+
+  Lemma exec_outsec_err name addr at_ noload sub body st e :
+    outsec_vma addr sub body st = Err e ->
+    exec_outsec env senv ext final name addr at_ noload sub body st = add_err (LForwardRef name) st.
+  Proof. unfold outsec_vma, exec_outsec. intro H. cbv zeta. rewrite H. reflexivity. Qed.
+
+  Lemma exec_outsec_ok name addr at_ noload sub body st vma :
+    outsec_vma addr sub body st = Ok vma ->
+    let ss := outsec_body name sub body vma st in
+    let st' := exec_outsec env senv ext final name addr at_ noload sub body st in
+    l_dot st' = vma + s_off ss /\
+    l_syms st' = l_syms (s_st ss) /\
+    l_provided st' = l_provided (s_st ss) /\
+    l_secs st' = (l_secs st ++
+                  [OSec name vma (s_off ss)
+                        (match at_ with Some s => sym_lookup s (s_st ss) env ext | None => None end)
+                        noload (s_contents ss && negb noload)])%list /\
+    l_placed st' = l_placed (s_st ss) /\
+    l_remaining st' = l_remaining (s_st ss) /\
+    l_discarded st' = l_discarded (s_st ss) /\
+    (l_errors st' = l_errors (s_st ss) \/ l_errors st' = (l_errors (s_st ss) ++ [LIrregular name])%list).
+  Proof.
+    unfold outsec_vma, exec_outsec, outsec_body. intro H. cbv zeta. rewrite H.
+    set (ss := fold_left _ body _).
+    assert (Hsecs : l_secs (s_st ss) = l_secs st) by (unfold ss; rewrite sec_fold_secs; reflexivity).
+    match goal with |- context [if ?c then _ else _] => destruct c end; cbn [l_dot l_syms l_provided l_secs
+      l_placed l_remaining l_discarded l_errors add_err]; rewrite Hsecs;
+      repeat split; try reflexivity; try (destruct at_; reflexivity); auto.
+  Qed.
+
+  Lemma exec_outsec_syms name addr at_ noload sub body st x :
+    existsb (assigns x) body = false ->
+    lookup x (l_syms (exec_outsec env senv ext final name addr at_ noload sub body st)) = lookup x (l_syms st).
+  Proof.
+    intro H. destruct (outsec_vma addr sub body st) as [vma|e] eqn:E.
+    - destruct (exec_outsec_ok name addr at_ noload sub body st vma E) as [_ [Hs _]]. rewrite Hs.
+      unfold outsec_body. rewrite sec_fold_syms by assumption. reflexivity.
+    - rewrite (exec_outsec_err _ _ _ _ _ _ _ _ E). reflexivity.
+  Qed.
+
+  Lemma exec_outsec_errors name addr at_ noload sub body st :
+    exists new, l_errors (exec_outsec env senv ext final name addr at_ noload sub body st) = (l_errors st ++ new)%list.
+  Proof.
+    destruct (outsec_vma addr sub body st) as [vma|e] eqn:E.
+    - destruct (exec_outsec_ok name addr at_ noload sub body st vma E) as [_ [_ [_ [_ [_ [_ [_ He]]]]]]].
+      unfold outsec_body in He. destruct (sec_fold_errors (vma) (option_map Z.of_N sub) name body (SState 0 false st)) as [n En].
+      cbn [s_st] in En. destruct He as [He|He]; rewrite He, En.
+      + eauto.
+      + rewrite <- app_assoc. eauto.
+    - rewrite (exec_outsec_err _ _ _ _ _ _ _ _ E). exists [LForwardRef name]. reflexivity.
+  Qed.
+
+  (* the sections of a state only grow *)
+  Lemma exec_outsec_secs name addr at_ noload sub body st :
+    exists new, l_secs (exec_outsec env senv ext final name addr at_ noload sub body st) = (l_secs st ++ new)%list /\
+                Forall (fun o => os_name o = name) new.
+  Proof.
+    destruct (outsec_vma addr sub body st) as [vma|e] eqn:E.
+    - destruct (exec_outsec_ok name addr at_ noload sub body st vma E) as [_ [_ [_ [Hs _]]]]. rewrite Hs.
+      eexists. split; [reflexivity|]. repeat constructor.
+    - rewrite (exec_outsec_err _ _ _ _ _ _ _ _ E). exists []. rewrite app_nil_r. split; [reflexivity|constructor].
+  Qed.
+
+  (* ---------- top-level statements ---------- *)
+
+  Lemma top_syms st s x :
+    assigns x s = false -> lookup x (l_syms (top st s)) = lookup x (l_syms st).
+  Proof.
+    intro H. destruct s; try reflexivity; cbn [exec_top_stmt].
+    - cbn [assigns] in H. destruct (String.eqb sym ".").
+      + destruct (eval_expr env senv ext st (l_dot st) e); reflexivity.
+      + apply assign_syms_other. apply String.eqb_neq. assumption.
+    - cbn [assigns] in H. destruct (String.eqb sym "."); [reflexivity|].
+      destruct (sym_lookup sym st env ext); [|reflexivity].
+      apply lookup_set_sym_other. apply String.eqb_neq. assumption.
+    - cbn [assigns] in H.
+      destruct (sym_lookup sym st env ext); [destruct (sym_lookup other st env ext)|];
+        try (destruct final; reflexivity).
+      apply lookup_set_sym_other. apply String.eqb_neq. assumption.
+    - cbn [assigns] in H.
+      destruct (sym_lookup "__romPos" st env ext); [destruct (sec_lookup sec st senv)|];
+        try (destruct final; reflexivity).
+      apply lookup_set_sym_other. apply String.eqb_neq. assumption.
+    - cbn [assigns] in H. apply exec_outsec_syms. assumption.
+    - destruct (place 0 None sect _ 0 [] false) as [[off' pls] c]. reflexivity.
+    - destruct (eval_raw env ext st cond) as [v|e]; [destruct (v =? 0); reflexivity|].
+      destruct e; destruct final; reflexivity.
+  Qed.
+
+  Lemma run_syms l x : forall st,
+    existsb (assigns x) l = false -> lookup x (l_syms (runl l st)) = lookup x (l_syms st).
+  Proof.
+    induction l as [|s l IH]; intros st H; [reflexivity|]. simpl in H. apply orb_false_iff in H.
+    destruct H as [H1 H2]. rewrite run_cons, IH by assumption. apply top_syms. assumption.
+  Qed.
+
+  (* statements that leave "." where it is *)
+  Definition keeps_dot (s : stmt) : bool :=
+    match s with
+    | SAssign _ _ _ sym _ => negb (String.eqb sym ".")
+    | SAlign sym _ => negb (String.eqb sym ".")
+    | SOutSec _ _ _ _ _ _ | SSingleEntry _ => false
+    | _ => true
+    end.
+
+  Lemma top_dot st s : keeps_dot s = true -> l_dot (top st s) = l_dot st.
+  Proof.
+    intro H. destruct s; try reflexivity; try discriminate; cbn [exec_top_stmt]; cbn [keeps_dot] in H.
+    - destruct (String.eqb sym "."); [discriminate|]. apply assign_dot.
+    - destruct (String.eqb sym "."); [discriminate|]. destruct (sym_lookup sym st env ext); reflexivity.
+    - destruct (sym_lookup sym st env ext); [destruct (sym_lookup other st env ext)|];
+        try (destruct final; reflexivity).
+    - destruct (sym_lookup "__romPos" st env ext); [destruct (sec_lookup sec st senv)|];
+        try (destruct final; reflexivity).
+    - destruct (eval_raw env ext st cond) as [v|e]; [destruct (v =? 0); reflexivity|].
+      destruct e; destruct final; reflexivity.
+  Qed.
+
+  Lemma run_dot l : forall st, forallb keeps_dot l = true -> l_dot (runl l st) = l_dot st.
+  Proof.
+    induction l as [|s l IH]; intros st H; [reflexivity|]. simpl in H. apply andb_true_iff in H.
+    destruct H as [H1 H2]. rewrite run_cons, IH by assumption. apply top_dot. assumption.
+  Qed.
+
+  (* the output sections a statement creates *)
+  Definition makes_sec (s : stmt) : list string :=
+    match s with
+    | SOutSec name _ _ _ _ _ => [name]
+    | SSingleEntry sect => [sect]
+    | _ => []
+    end.
+
+  Lemma top_secs st s :
+    exists new, l_secs (top st s) = (l_secs st ++ new)%list /\
+                Forall (fun o => In (os_name o) (makes_sec s)) new.
+  Proof.
+    assert (Hsame : l_secs (top st s) = l_secs st -> exists new, l_secs (top st s) = (l_secs st ++ new)%list /\
+                Forall (fun o => In (os_name o) (makes_sec s)) new).
+    { intro E. exists []. rewrite app_nil_r. split; [assumption|constructor]. }
+    destruct s; try (apply Hsame; reflexivity); cbn [exec_top_stmt].
+    - apply Hsame. cbn [exec_top_stmt]. destruct (String.eqb sym ".").
+      + destruct (eval_expr env senv ext st (l_dot st) e); reflexivity.
+      + apply assign_secs.
+    - apply Hsame. cbn [exec_top_stmt]. destruct (String.eqb sym "."); [reflexivity|].
+      destruct (sym_lookup sym st env ext); reflexivity.
+    - apply Hsame. cbn [exec_top_stmt].
+      destruct (sym_lookup sym st env ext); [destruct (sym_lookup other st env ext)|];
+        try (destruct final; reflexivity).
+    - apply Hsame. cbn [exec_top_stmt].
+      destruct (sym_lookup "__romPos" st env ext); [destruct (sec_lookup sec st senv)|];
+        try (destruct final; reflexivity).
+    - destruct (exec_outsec_secs name addr at_ noload sub body st) as [new [E F]]. exists new.
+      split; [assumption|]. eapply Forall_impl; [|exact F]. intros o Ho. left. symmetry. assumption.
+    - destruct (place 0 None sect _ 0 [] false) as [[off' pls] c]. eexists. split; [reflexivity|].
+      constructor; [left; reflexivity|constructor].
+    - apply Hsame. cbn [exec_top_stmt].
+      destruct (eval_raw env ext st cond) as [v|e]; [destruct (v =? 0); reflexivity|].
+      destruct e; destruct final; reflexivity.
+  Qed.
+
+  Lemma run_secs l : forall st,
+    exists new, l_secs (runl l st) = (l_secs st ++ new)%list /\
+                Forall (fun o => In (os_name o) (flat_map makes_sec l)) new.
+  Proof.
+    induction l as [|s l IH]; intro st.
+    - exists []. rewrite app_nil_r. split; [reflexivity|constructor].
+    - rewrite run_cons. destruct (IH (top st s)) as [n1 [E1 F1]]. destruct (top_secs st s) as [n2 [E2 F2]].
+      exists (n2 ++ n1)%list. rewrite E1, E2, app_assoc. split; [reflexivity|].
+      cbn [flat_map]. apply Forall_app; split.
+      + eapply Forall_impl; [|exact F2]. intros o Ho. apply in_or_app. left. assumption.
+      + eapply Forall_impl; [|exact F1]. intros o Ho. apply in_or_app. right. assumption.
+  Qed.
+
+  Lemma top_errors st s : exists new, l_errors (top st s) = (l_errors st ++ new)%list.
+  Proof.
+    assert (Hsame : l_errors (top st s) = l_errors st -> exists new, l_errors (top st s) = (l_errors st ++ new)%list).
+    { intro E. exists []. rewrite app_nil_r. assumption. }
+    assert (Hadd : forall e st0, exists new, l_errors (add_err e st0) = (l_errors st0 ++ new)%list).
+    { intros e st0. exists [e]. reflexivity. }
+    destruct s; try (apply Hsame; reflexivity); cbn [exec_top_stmt].
+    - destruct (String.eqb sym ".").
+      + destruct (eval_expr env senv ext st (l_dot st) e); [exists []; rewrite app_nil_r; reflexivity | apply Hadd].
+      + apply assign_errors.
+    - apply Hsame. cbn [exec_top_stmt]. destruct (String.eqb sym "."); [reflexivity|].
+      destruct (sym_lookup sym st env ext); reflexivity.
+    - destruct (sym_lookup sym st env ext); [destruct (sym_lookup other st env ext)|];
+        try (destruct final; [apply Hadd | exists []; rewrite app_nil_r; reflexivity]).
+      exists []; rewrite app_nil_r; reflexivity.
+    - destruct (sym_lookup "__romPos" st env ext); [destruct (sec_lookup sec st senv)|];
+        try (destruct final; [apply Hadd | exists []; rewrite app_nil_r; reflexivity]).
+      exists []; rewrite app_nil_r; reflexivity.
+    - apply exec_outsec_errors.
+    - destruct (place 0 None sect _ 0 [] false) as [[off' pls] c]. exists []; rewrite app_nil_r; reflexivity.
+    - destruct (eval_raw env ext st cond) as [v|e].
+      + destruct (v =? 0); [apply Hadd | exists []; rewrite app_nil_r; reflexivity].
+      + destruct e; try (destruct final; [apply Hadd | exists []; rewrite app_nil_r; reflexivity]). apply Hadd.
+  Qed.
+
+  Lemma run_errors l : forall st, exists new, l_errors (runl l st) = (l_errors st ++ new)%list.
+  Proof.
+    induction l as [|s l IH]; intro st; [exists []; rewrite app_nil_r; reflexivity|].
+    rewrite run_cons. destruct (IH (top st s)) as [n1 E1]. destruct (top_errors st s) as [n2 E2].
+    exists (n2 ++ n1)%list. rewrite E1, E2, app_assoc. reflexivity.
+  Qed.
+
+  Lemma run_errors_in l st e : In e (l_errors st) -> In e (l_errors (runl l st)).
+  Proof. intro H. destruct (run_errors l st) as [new E]. rewrite E. apply in_or_app. left. assumption. Qed.
+
+  (* a section found in a state is still found, the same, after more statements *)
+  Lemma find_sec_app name l1 l2 o : find_sec name l1 = Some o -> find_sec name (l1 ++ l2) = Some o.
+  Proof.
+    unfold find_sec. induction l1 as [|a l1 IH]; simpl; [discriminate|].
+    destruct (String.eqb (os_name a) name); auto.
+  Qed.
+
+  Lemma find_sec_app_none name l1 l2 : find_sec name l1 = None -> find_sec name (l1 ++ l2) = find_sec name l2.
+  Proof.
+    unfold find_sec. induction l1 as [|a l1 IH]; simpl; [reflexivity|].
+    destruct (String.eqb (os_name a) name); [discriminate|auto].
+  Qed.
+
+  Lemma find_sec_none_names name l : ~ In name (map os_name l) -> find_sec name l = None.
+  Proof.
+    unfold find_sec. induction l as [|a l IH]; simpl; intro H; [reflexivity|].
+    destruct (String.eqb (os_name a) name) eqn:E; [apply String.eqb_eq in E; tauto|]. apply IH. tauto.
+  Qed.
+
+  Lemma run_find_sec l st name o :
+    find_sec name (l_secs st) = Some o -> find_sec name (l_secs (runl l st)) = Some o.
+  Proof. intro H. destruct (run_secs l st) as [new [E _]]. rewrite E. apply find_sec_app. assumption. Qed.
+
+  Lemma run_find_sec_none l st name :
+    find_sec name (l_secs st) = None -> ~ In name (flat_map makes_sec l) ->
+    find_sec name (l_secs (runl l st)) = None.
+  Proof.
+    intros H Hn. destruct (run_secs l st) as [new [E F]]. rewrite E, find_sec_app_none by assumption.
+    apply find_sec_none_names. intro Hin. apply in_map_iff in Hin. destruct Hin as [o [Eo Hin]].
+    rewrite Forall_forall in F. apply F in Hin. rewrite Eo in Hin. contradiction.
+  Qed.
+End Frames.
+
+(* ---------- what is still unplaced only shrinks; offsets only grow ---------- *)
+
+Section Remaining.
+  Variables (env : list (string * Z)) (senv : list osec) (ext : list (string * Z)) (final : bool).
+
+  Notation top := (exec_top_stmt env senv ext final).
+  Notation runl := (run env senv ext final).
+  Notation secs vma sub name := (exec_sec_stmt env senv ext final vma sub name).
+
+  Lemma filter_true {A} (l : list A) : filter (fun _ => true) l = l.
+  Proof. induction l as [|a l IH]; simpl; congruence. Qed.
+
+  Lemma sec_stmt_remaining vma sub name ss s :
+    exists f, l_remaining (s_st (secs vma sub name ss s)) = filter f (l_remaining (s_st ss)).
+  Proof.
+    destruct (sec_stmt_cases env senv ext final vma sub name ss s)
+      as [[p [h [r [sym [e [Es E]]]]]] | [[k [path [member [sect [wild [off' [pls [c [Es [Ep E]]]]]]]]]] | [E _]]];
+      rewrite E.
+    - exists (fun _ => true). cbn [s_st]. rewrite assign_remaining, filter_true. reflexivity.
+    - eexists. reflexivity.
+    - exists (fun _ => true). rewrite filter_true. reflexivity.
+  Qed.
+
+  Lemma sec_fold_remaining vma sub name body : forall ss,
+    exists f, l_remaining (s_st (fold_left (secs vma sub name) body ss)) = filter f (l_remaining (s_st ss)).
+  Proof.
+    induction body as [|s body IH]; intro ss.
+    - exists (fun _ => true). rewrite filter_true. reflexivity.
+    - cbn [fold_left]. destruct (IH (secs vma sub name ss s)) as [f1 E1].
+      destruct (sec_stmt_remaining vma sub name ss s) as [f2 E2]. rewrite E1, E2, filter_filter. eexists. reflexivity.
+  Qed.
+
+  Lemma top_remaining st s : exists f, l_remaining (top st s) = filter f (l_remaining st).
+  Proof.
+    assert (Hsame : l_remaining (top st s) = l_remaining st ->
+                    exists f, l_remaining (top st s) = filter f (l_remaining st)).
+    { intro E. exists (fun _ => true). rewrite filter_true. assumption. }
+    destruct s; try (apply Hsame; reflexivity); cbn [exec_top_stmt].
+    - apply Hsame. cbn [exec_top_stmt]. destruct (String.eqb sym ".").
+      + destruct (eval_expr env senv ext st (l_dot st) e); reflexivity.
+      + apply assign_remaining.
+    - apply Hsame. cbn [exec_top_stmt]. destruct (String.eqb sym "."); [reflexivity|].
+      destruct (sym_lookup sym st env ext); reflexivity.
+    - apply Hsame. cbn [exec_top_stmt].
+      destruct (sym_lookup sym st env ext); [destruct (sym_lookup other st env ext)|];
+        try (destruct final; reflexivity).
+    - apply Hsame. cbn [exec_top_stmt].
+      destruct (sym_lookup "__romPos" st env ext); [destruct (sec_lookup sec st senv)|];
+        try (destruct final; reflexivity).
+    - destruct (outsec_vma env senv ext addr sub body st) as [vma|e] eqn:E.
+      + destruct (exec_outsec_ok env senv ext final name addr at_ noload sub body st vma E)
+          as [_ [_ [_ [_ [_ [Hr _]]]]]]. rewrite Hr. unfold outsec_body.
+        destruct (sec_fold_remaining vma (option_map Z.of_N sub) name body (SState 0 false st)) as [f Ef].
+        exists f. exact Ef.
+      + rewrite (exec_outsec_err _ _ _ _ _ _ _ _ _ _ _ _ E). exists (fun _ => true). rewrite filter_true. reflexivity.
+    - destruct (place 0 None sect _ 0 [] false) as [[off' pls] c]. eexists. reflexivity.
+    - eexists. reflexivity.
+    - apply Hsame. cbn [exec_top_stmt].
+      destruct (eval_raw env ext st cond) as [v|e]; [destruct (v =? 0); reflexivity|].
+      destruct e; destruct final; reflexivity.
+  Qed.
+
+  Lemma run_remaining l : forall st, exists f, l_remaining (runl l st) = filter f (l_remaining st).
+  Proof.
+    induction l as [|s l IH]; intro st.
+    - exists (fun _ => true). rewrite filter_true. reflexivity.
+    - rewrite run_cons. destruct (IH (top st s)) as [f1 E1]. destruct (top_remaining st s) as [f2 E2].
+      rewrite E1, E2, filter_filter. eexists. reflexivity.
+  Qed.
+
+  Lemma Forall_filter {A} (P : A -> Prop) f l : Forall P l -> Forall P (filter f l).
+  Proof. induction 1 as [|a l Ha Hl IH]; simpl; [constructor|]. destruct (f a); [constructor|]; assumption. Qed.
+
+  Lemma run_remaining_Forall (P : usec -> Prop) l st :
+    Forall P (l_remaining st) -> Forall P (l_remaining (runl l st)).
+  Proof. intro H. destruct (run_remaining l st) as [f E]. rewrite E. apply Forall_filter. assumption. Qed.
+
+  Definition sizes_ok (st : lstate) : Prop := Forall (fun u => 0 <= u_size u) (l_remaining st).
+
+  Lemma sec_stmt_off vma sub name ss s :
+    sizes_ok (s_st ss) ->
+    s_off ss <= s_off (secs vma sub name ss s) /\ sizes_ok (s_st (secs vma sub name ss s)).
+  Proof.
+    intro H. split.
+    2:{ unfold sizes_ok. destruct (sec_stmt_remaining vma sub name ss s) as [f E]. rewrite E.
+        apply Forall_filter. assumption. }
+    destruct s; try (cbn [exec_sec_stmt s_off]; lia).
+    - cbn [exec_sec_stmt]. destruct (String.eqb sym "."); cbn [s_off]; [apply align_up_le | lia].
+    - cbn [exec_sec_stmt].
+      destruct (place vma sub name (filter (sel false path member sect wild) (l_remaining (s_st ss))) (s_off ss) []
+                      (s_contents ss)) as [[off' pls] c] eqn:E.
+      cbn [s_off]. apply place_spec in E; [tauto|]. apply Forall_filter. assumption.
+  Qed.
+
+  Lemma sec_fold_off vma sub name body : forall ss,
+    sizes_ok (s_st ss) -> s_off ss <= s_off (fold_left (secs vma sub name) body ss).
+  Proof.
+    induction body as [|s body IH]; intros ss H; [cbn; lia|]. cbn [fold_left].
+    destruct (sec_stmt_off vma sub name ss s H) as [H1 H2]. specialize (IH _ H2). lia.
+  Qed.
+
+  Lemma outsec_body_off name sub body vma st :
+    sizes_ok st -> 0 <= s_off (outsec_body env senv ext final name sub body vma st).
+  Proof. intro H. unfold outsec_body. apply (sec_fold_off vma (option_map Z.of_N sub) name body (SState 0 false st)). exact H. Qed.
+End Remaining.
+
+(* ====================================================================== *)
+(* generated names: how they end                                           *)
+(* ====================================================================== *)
+
+Lemma append_nil_r s : (s ++ "")%string = s.
+Proof. induction s as [|c s IH]; simpl; [reflexivity|]. rewrite IH. reflexivity. Qed.
+
+Lemma append_assoc a b c : ((a ++ b) ++ c)%string = (a ++ (b ++ c))%string.
+Proof. induction a as [|x a IH]; simpl; [reflexivity|]. rewrite IH. reflexivity. Qed.
+
+Lemma last_char_app a b : b <> ""%string -> last_char (a ++ b) = last_char b.
+Proof.
+  intro H. induction a as [|c a IH]; [reflexivity|]. cbn [append last_char]. rewrite IH.
+  destruct (a ++ b)%string eqn:E; [|reflexivity].
+  destruct a; simpl in E; [contradiction|discriminate].
+Qed.
+
+Lemma fmt_ends pieces : forall args, pieces <> [] -> exists pre, fmt pieces args = (pre ++ last pieces "")%string.
+Proof.
+  induction pieces as [|p ps IH]; intros args H; [contradiction|].
+  destruct ps as [|p2 ps'].
+  - exists ""%string. destruct args; cbn [fmt last]; [apply append_nil_r | reflexivity].
+  - assert (Hne : p2 :: ps' <> []) by discriminate.
+    destruct args as [|a rest].
+    + destruct (IH [] Hne) as [pre E]. exists (p ++ pre)%string.
+      change (fmt (p :: p2 :: ps') []) with (p ++ fmt (p2 :: ps') [])%string. rewrite E, append_assoc. reflexivity.
+    + destruct (IH rest Hne) as [pre E]. exists (p ++ a ++ pre)%string.
+      change (fmt (p :: p2 :: ps') (a :: rest)) with (p ++ a ++ fmt (p2 :: ps') rest)%string.
+      rewrite E, !append_assoc. reflexivity.
+Qed.
+
+Definition style_last_ok (c : ascii) : bool :=
+  existsb (Ascii.eqb c) ["T"; "D"; "E"; "M"; "t"; "d"; "e"]%char.
+
+Definition ends_ok (s : string) : bool :=
+  match last_char s with Some c => style_last_ok c | None => false end.
+
+Lemma templates_end_ok :
+  Forall (fun tpl => ends_ok (last (fst tpl) "") = true /\ ends_ok (last (snd tpl) "") = true) all_templates.
+Proof. repeat constructor. Qed.
+
+Lemma style_name_ends sty s : style_name sty s -> ends_ok s = true.
+Proof.
+  intros [tpl [args [Hin E]]]. subst.
+  pose proof templates_end_ok as T. rewrite Forall_forall in T. destruct (T tpl Hin) as [T1 T2].
+  assert (Hp : ends_ok (last (pick sty tpl) "") = true) by (destruct sty; assumption).
+  assert (Hne : pick sty tpl <> []).
+  { intro E. rewrite E in Hp. discriminate. }
+  destruct (fmt_ends (pick sty tpl) args Hne) as [pre E]. rewrite E. unfold ends_ok in *.
+  rewrite last_char_app; [assumption|]. intro E0. rewrite E0 in Hp. discriminate.
+Qed.
+
+(* a generated name is never a name that ends differently: "__romPos", ".", "_gp" ... *)
+Lemma style_name_neq sty s x : style_name sty s -> ends_ok x = false -> s <> x.
+Proof. intros H Hx E. subst. rewrite (style_name_ends sty x H) in Hx. discriminate. Qed.
+
+Lemma style_name_eqb sty s x : style_name sty s -> ends_ok x = false -> String.eqb s x = false.
+Proof. intros H Hx. apply String.eqb_neq. eapply style_name_neq; eassumption. Qed.
+
+Lemma segment_rom_start_not_rompos sty n : segment_rom_start sty n <> "__romPos"%string.
+Proof. apply (style_name_neq sty); [sn | reflexivity]. Qed.
+
+Lemma segment_rom_start_not_dot sty n : segment_rom_start sty n <> "."%string.
+Proof. apply (style_name_neq sty); [sn | reflexivity]. Qed.
+
+(* ====================================================================== *)
+(* a name no generated symbol can have is assigned nowhere in the groups   *)
+(* ====================================================================== *)
+
+Lemma existsb_false_Forall {A} (f : A -> bool) l : existsb f l = false <-> Forall (fun s => f s = false) l.
+Proof.
+  induction l as [|a l IH]; simpl; [split; [constructor|reflexivity]|].
+  rewrite orb_false_iff, IH. split; [intros [H1 H2]; constructor; assumption | intro H; inversion H; auto].
+Qed.
+
+Lemma no_assign_Forall x l : no_assign x l = true <-> Forall (fun s => assigns x s = false) l.
+Proof. unfold no_assign. rewrite negb_true_iff. apply existsb_false_Forall. Qed.
+
+Section FreshName.
+  Variable x : string.
+  Hypothesis x_end : ends_ok x = false.
+  Hypothesis x_gp : x <> "_gp"%string.
+  Hypothesis x_dot : x <> "."%string.
+
+  Definition nf (s : stmt) : Prop := assigns x s = false.
+
+  Lemma nf_linker sty sym e : style_name sty sym -> nf (linker_symbol sym e).
+  Proof. intro H. unfold nf, linker_symbol. cbn [assigns]. eapply style_name_eqb; eassumption. Qed.
+
+  Lemma nf_dot n : nf (SAlign "." n).
+  Proof. unfold nf. cbn [assigns]. apply String.eqb_neq. congruence. Qed.
+
+  Lemma nf_gp p h r e : nf (SAssign p h r "_gp" e).
+  Proof. unfold nf. cbn [assigns]. apply String.eqb_neq. congruence. Qed.
+
+  Ltac nf_leaf :=
+    repeat match goal with
+           | |- Forall _ (_ ++ _) => apply Forall_app; split
+           | |- Forall _ (match ?x with _ => _ end) => destruct x
+           | |- Forall _ (if ?x then _ else _) => destruct x
+           | |- Forall _ (_ :: _) => constructor
+           | |- Forall _ [] => constructor
+           | |- nf (linker_symbol _ _) => eapply nf_linker; sn
+           | |- nf (SAlign "." _) => apply nf_dot
+           | |- nf (SAssign _ _ _ "_gp" _) => apply nf_gp
+           | |- nf _ => reflexivity
+           end.
+
+  Lemma nf_opt_align a : Forall nf (opt_align a).
+  Proof. unfold opt_align. nf_leaf. Qed.
+
+  Lemma nf_gp_stmt rt seg section : Forall nf (gp_stmt rt seg section).
+  Proof. unfold gp_stmt. nf_leaf. Qed.
+
+  Lemma nf_section_symbol_start rt sty cfg seg section : Forall nf (section_symbol_start rt sty cfg seg section).
+  Proof.
+    unfold section_symbol_start. destruct (section_syms cfg); [|constructor].
+    fa; try apply nf_opt_align; try apply nf_gp_stmt. nf_leaf.
+  Qed.
+
+  Lemma nf_section_symbol_end sty cfg seg section : Forall nf (section_symbol_end sty cfg seg section).
+  Proof.
+    unfold section_symbol_end. destruct (section_syms cfg); [|constructor].
+    fa; try apply nf_opt_align. unfold sym_end_size. nf_leaf.
+  Qed.
+
+  Lemma nf_kind_start sty cfg seg noload : Forall nf (sections_kind_start sty cfg seg noload).
+  Proof. unfold sections_kind_start. nf_leaf. Qed.
+
+  Lemma nf_kind_end sty cfg seg noload : Forall nf (sections_kind_end sty cfg seg noload).
+  Proof. unfold sections_kind_end, sym_end_size. nf_leaf. Qed.
+
+  Lemma nf_opt_fill seg : Forall nf (opt_fill seg).
+  Proof. unfold opt_fill. nf_leaf. Qed.
+
+  Lemma nf_class_start st c cn : Forall nf (class_start_stmts st c cn).
+  Proof.
+    unfold class_start_stmts. apply Forall_app; split; [|nf_leaf].
+    destruct (vc_fixed_vram c); [nf_leaf|]. destruct (vc_fixed_symbol c); [nf_leaf|].
+    constructor; [eapply nf_linker; sn|]. apply Forall_map_intro. intro o. unfold nf. cbn [assigns].
+    apply (style_name_eqb (linker_symbols_style st)); [sn|assumption].
+  Qed.
+
+  Lemma nf_emitter sty wild offs g : emitter sty wild offs g ->
+    forall ws s ws', g ws = Ok (s, ws') -> Forall nf s.
+  Proof.
+    apply (emitter_rel sty wild offs (fun _ s _ => Forall nf s)); intros.
+    - constructor.
+    - apply Forall_app; split; assumption.
+    - repeat constructor.
+    - repeat constructor.
+    - constructor; [|constructor]. apply (nf_linker sty). sn.
+  Qed.
+
+  Lemma nf_emit_section rt sty cfg seg sections base section ws s ws' :
+    emit_section rt sty cfg seg sections base section ws = Ok (s, ws') -> Forall nf s.
+  Proof. apply (nf_emitter sty (wildcard_sections seg) (offs_of_segment rt seg)). apply emit_section_emitter. Qed.
+
+  Lemma nf_part_groups rt st cfg seg sections rest : forall ws s ws',
+    part_groups rt st cfg seg sections rest ws = Ok (s, ws') -> Forall nf s.
+  Proof.
+    induction rest as [|section rest IH]; intros ws s ws' H.
+    - apply ok_inj in H. inversion H; subst. constructor.
+    - apply part_groups_cons in H. destruct H as [s1 [ws1 [s2 [E1 [E2 E]]]]]. subst.
+      fa.
+      + apply nf_section_symbol_start.
+      + eapply nf_emit_section; eassumption.
+      + apply nf_section_symbol_end.
+      + nf_leaf.
+      + eapply IH; eassumption.
+  Qed.
+
+  Lemma nf_outsec name addr at_ noload sub body : Forall nf body -> nf (SOutSec name addr at_ noload sub body).
+  Proof. intro H. unfold nf. cbn [assigns]. apply existsb_false_Forall. exact H. Qed.
+
+  Lemma nf_write_segment rt st cfg seg sections noload ws s ws' :
+    write_segment rt st cfg seg sections noload ws = Ok (s, ws') -> Forall nf s.
+  Proof.
+    intro H. apply write_segment_inv in H. destruct H as [body [E H]]. subst.
+    fa; [apply nf_kind_start | | apply nf_kind_end].
+    constructor; [|constructor]. apply nf_outsec. apply Forall_app; split; [apply nf_opt_fill|].
+    eapply nf_part_groups; eassumption.
+  Qed.
+
+  Lemma nf_single_groups rt st cfg seg sections noload rest : forall ws s ws',
+    single_groups rt st cfg seg sections noload rest ws = Ok (s, ws') -> Forall nf s.
+  Proof.
+    induction rest as [|section rest IH]; intros ws s ws' H.
+    - apply ok_inj in H. inversion H; subst. constructor.
+    - apply single_groups_cons in H. destruct H as [s1 [ws1 [s2 [E1 [E2 E]]]]]. subst.
+      fa.
+      + apply nf_section_symbol_start.
+      + constructor; [|constructor]. apply nf_outsec.
+        apply Forall_app; split; [apply nf_opt_fill|]. eapply nf_emit_section; eassumption.
+      + apply nf_section_symbol_end.
+      + nf_leaf.
+      + eapply IH; eassumption.
+  Qed.
+
+  Lemma nf_class_part st classes seg ws cls ws1 :
+    class_part st classes seg ws = Ok (cls, ws1) -> Forall nf cls.
+  Proof.
+    intro Ec. apply class_part_inv in Ec. destruct Ec as [[E _] | [cn [c [_ [_ [_ [E _]]]]]]]; subst;
+      [constructor | apply nf_class_start].
+  Qed.
+
+  Lemma nf_end_sections st classes ws : Forall nf (end_sections_body st classes ws).
+  Proof.
+    rewrite end_sections_layout.
+    assert (Hparts : Forall (Forall nf)
+                       [tail_sizes st classes ws; tail_allow st; tail_extra st; tail_discard st]).
+    { repeat constructor.
+      - apply Forall_map_intro. intro cn. eapply nf_linker. sn.
+      - apply Forall_map_intro. reflexivity.
+      - apply Forall_map_intro. reflexivity.
+      - unfold tail_discard. nf_leaf. }
+    induction Hparts as [|p r Hp Hr IH]; [constructor|]. simpl. destruct p as [|y p]; [exact IH|].
+    apply Forall_app; split; [exact Hp|]. destruct (sep_concat r); [constructor|].
+    constructor; [reflexivity | exact IH].
+  Qed.
+End FreshName.
+
+(* ====================================================================== *)
+(* C04, script level                                                       *)
+(* ====================================================================== *)
+
+Lemma eval_raw_0x0 env ext st : eval_raw env ext st "0x0" = Ok 0.
+Proof. reflexivity. Qed.
+
+Lemma begin_sections_rom st :
+  begin_sections_body st = rom_init :: (hardcoded_gp_stmts st ++ [SBlank])%list.
+Proof. reflexivity. Qed.
+
+Lemma ends_rompos : ends_ok "__romPos" = false.
+Proof. reflexivity. Qed.
+
+Lemma rompos_gp : "__romPos"%string <> "_gp"%string.
+Proof. discriminate. Qed.
+
+Lemma rompos_dot : "__romPos"%string <> "."%string.
+Proof. discriminate. Qed.
+
+Notation rf := (nf "__romPos").
+
+Lemma filter_none {A} (f : A -> bool) l : Forall (fun s => f s = false) l -> filter f l = [].
+Proof. induction 1 as [|a l Ha Hl IH]; simpl; [reflexivity|]. rewrite Ha. assumption. Qed.
+
+Lemma rf_filter l : Forall rf l -> filter (assigns "__romPos") l = [].
+Proof. apply filter_none. Qed.
+
+Lemma rf_linker sty sym e : style_name sty sym -> assigns "__romPos" (linker_symbol sym e) = false.
+Proof. apply nf_linker. reflexivity. Qed.
+
+Lemma rom_stmts_head st seg :
+  filter (assigns "__romPos") (seg_head st seg) = rom_align (segment_start_align seg).
+Proof.
+  unfold seg_head. rewrite filter_app. cbn [filter].
+  rewrite !(rf_linker (linker_symbols_style st)) by sn.
+  destruct (segment_start_align seg); reflexivity.
+Qed.
+
+Lemma rom_stmts_foot st seg :
+  filter (assigns "__romPos") (seg_foot st seg) = (SRomAdd (alloc_name seg) :: rom_align (segment_end_align seg))%list.
+Proof.
+  unfold seg_foot, sym_end_size. cbv zeta. rewrite !filter_app. cbn [filter].
+  rewrite !(rf_linker (linker_symbols_style st)) by sn.
+  assert (E : filter (assigns "__romPos")
+                (match sg_vram_class seg with
+                 | Some cn => [SBlank; SMaxSelf (vram_class_end (linker_symbols_style st) cn)
+                                                (segment_vram_end (linker_symbols_style st) (sg_name seg))]
+                 | None => [] end) = []).
+  { destruct (sg_vram_class seg) as [cn|]; [|reflexivity]. cbn [filter assigns].
+    rewrite (style_name_eqb (linker_symbols_style st)); [reflexivity | sn | reflexivity]. }
+  rewrite E. destruct (segment_end_align seg); reflexivity.
+Qed.
+
+Lemma rom_stmts_add_segment rt st cfg classes seg ws s ws' :
+  add_segment rt st cfg classes seg ws = Ok (s, ws') ->
+  filter (assigns "__romPos") s = if should_emit rt (sg_conds seg) then segment_rom_stmts seg else [].
+Proof.
+  intro H. apply add_segment_inv in H.
+  destruct H as [[Hc [E _]] | [Hc [cls [ws1 [s1 [ws2 [s2 [Ec [E1 [E2 E]]]]]]]]]]; subst; rewrite Hc; [reflexivity|].
+  rewrite !filter_app, rom_stmts_head, rom_stmts_foot.
+  rewrite (rf_filter cls) by (eapply nf_class_part; solve [eassumption | reflexivity | discriminate]).
+  rewrite (rf_filter s1) by (eapply nf_write_segment; solve [eassumption | reflexivity | discriminate]).
+  rewrite (rf_filter s2) by (eapply nf_write_segment; solve [eassumption | reflexivity | discriminate]).
+  reflexivity.
+Qed.
+
+Lemma rom_stmts_fold rt st cfg classes segs : forall ws s ws',
+  fold_out (add_segment rt st cfg classes) segs ws = Ok (s, ws') ->
+  filter (assigns "__romPos") s = flat_map segment_rom_stmts (included rt segs).
+Proof.
+  induction segs as [|seg r IH]; intros ws s ws' H.
+  - apply fold_out_nil in H. destruct H; subst. reflexivity.
+  - apply fold_out_cons in H. destruct H as [s1 [ws1 [s2 [E1 [E2 E]]]]]. subst.
+    rewrite filter_app, (IH _ _ _ E2), (rom_stmts_add_segment _ _ _ _ _ _ _ _ E1).
+    unfold included. cbn [filter]. destruct (should_emit rt (sg_conds seg)); reflexivity.
+Qed.
+
+(* the whole SECTIONS body of a multi-segment script *)
+Lemma rom_stmts_sections rt st cfg classes segs ws body ws' :
+  fold_out (add_segment rt st cfg classes) segs ws = Ok (body, ws') ->
+  filter (assigns "__romPos") (begin_sections_body st ++ body ++ end_sections_body st classes ws') =
+  rom_init :: flat_map segment_rom_stmts (included rt segs).
+Proof.
+  intro H. rewrite !filter_app, (rom_stmts_fold _ _ _ _ _ _ _ _ H).
+  rewrite (rf_filter (end_sections_body st classes ws')) by (apply nf_end_sections; solve [reflexivity | discriminate]).
+  rewrite app_nil_r, begin_sections_rom. cbn [filter assigns rom_init]. cbn [String.eqb Ascii.eqb Bool.eqb].
+  rewrite filter_app. unfold hardcoded_gp_stmts. destruct (hardcoded_gp_value st); reflexivity.
+Qed.
+
+(* ---------- headers and ROM additions ---------- *)
+
+Definition plain (s : stmt) : Prop := header_of s = [] /\ rom_add_of s = [] /\ makes_sec s = [].
+
+Lemma headers_app a b : headers (a ++ b) = headers a ++ headers b.
+Proof. apply flat_map_app. Qed.
+
+Lemma rom_adds_app a b : rom_adds (a ++ b) = rom_adds a ++ rom_adds b.
+Proof. apply flat_map_app. Qed.
+
+Lemma headers_plain l : Forall plain l -> headers l = [].
+Proof. induction 1 as [|a l [Ha _] Hl IH]; simpl; [reflexivity|]. rewrite Ha. assumption. Qed.
+
+Lemma makes_sec_plain l : Forall plain l -> flat_map makes_sec l = [].
+Proof. induction 1 as [|a l [_ [_ Ha]] Hl IH]; simpl; [reflexivity|]. rewrite Ha. assumption. Qed.
+
+Lemma rom_adds_plain l : Forall plain l -> rom_adds l = [].
+Proof. induction 1 as [|a l [_ [Ha _]] Hl IH]; simpl; [reflexivity|]. rewrite Ha. assumption. Qed.
+
+Ltac pl_leaf :=
+  repeat match goal with
+         | |- Forall _ (_ ++ _) => apply Forall_app; split
+         | |- Forall _ (match ?x with _ => _ end) => destruct x
+         | |- Forall _ (if ?x then _ else _) => destruct x
+         | |- Forall _ (_ :: _) => constructor
+         | |- Forall _ [] => constructor
+         | |- plain _ => repeat split; reflexivity
+         end.
+
+Lemma pl_opt_align a : Forall plain (opt_align a).
+Proof. unfold opt_align. pl_leaf. Qed.
+
+Lemma pl_gp_stmt rt seg section : Forall plain (gp_stmt rt seg section).
+Proof. unfold gp_stmt. pl_leaf. Qed.
+
+Lemma pl_section_symbol_start rt sty cfg seg section : Forall plain (section_symbol_start rt sty cfg seg section).
+Proof.
+  unfold section_symbol_start. destruct (section_syms cfg); [|constructor].
+  fa; try apply pl_opt_align; try apply pl_gp_stmt. pl_leaf.
+Qed.
+
+Lemma pl_section_symbol_end sty cfg seg section : Forall plain (section_symbol_end sty cfg seg section).
+Proof.
+  unfold section_symbol_end. destruct (section_syms cfg); [|constructor].
+  fa; try apply pl_opt_align. unfold sym_end_size. pl_leaf.
+Qed.
+
+Lemma pl_kind_start sty cfg seg noload : Forall plain (sections_kind_start sty cfg seg noload).
+Proof. unfold sections_kind_start. pl_leaf. Qed.
+
+Lemma pl_kind_end sty cfg seg noload : Forall plain (sections_kind_end sty cfg seg noload).
+Proof. unfold sections_kind_end, sym_end_size. pl_leaf. Qed.
+
+Lemma pl_class_start st c cn : Forall plain (class_start_stmts st c cn).
+Proof.
+  unfold class_start_stmts. apply Forall_app; split; [|pl_leaf].
+  destruct (vc_fixed_vram c); [pl_leaf|]. destruct (vc_fixed_symbol c); [pl_leaf|].
+  constructor; [repeat split; reflexivity|]. apply Forall_map_intro. intro o. repeat split; reflexivity.
+Qed.
+
+Lemma pl_class_part st classes seg ws cls ws1 :
+  class_part st classes seg ws = Ok (cls, ws1) -> Forall plain cls.
+Proof.
+  intro Ec. apply class_part_inv in Ec. destruct Ec as [[E _] | [cn [c [_ [_ [_ [E _]]]]]]]; subst;
+    [constructor | apply pl_class_start].
+Qed.
+
+Lemma pl_seg_head st seg : Forall plain (seg_head st seg).
+Proof. unfold seg_head. pl_leaf. Qed.
+
+Lemma headers_write_segment rt st cfg seg sections noload ws s ws' :
+  write_segment rt st cfg seg sections noload ws = Ok (s, ws') ->
+  headers s = [("." ++ sg_name seg ++ (if noload then ".noload" else ""),
+                if noload then None else segment_addr (linker_symbols_style st) seg,
+                if noload then None else Some (segment_rom_start (linker_symbols_style st) (sg_name seg)),
+                noload)]%string /\
+  rom_adds s = [].
+Proof.
+  intro H. apply write_segment_inv in H. destruct H as [body [E H]]. subst.
+  rewrite !headers_app, !rom_adds_app, (headers_plain _ (pl_kind_start _ _ _ _)), (headers_plain _ (pl_kind_end _ _ _ _)),
+    (rom_adds_plain _ (pl_kind_start _ _ _ _)), (rom_adds_plain _ (pl_kind_end _ _ _ _)).
+  split; reflexivity.
+Qed.
+
+Lemma headers_foot st seg : headers (seg_foot st seg) = [] /\ rom_adds (seg_foot st seg) = [alloc_name seg].
+Proof.
+  unfold seg_foot, sym_end_size. cbv zeta. destruct (segment_end_align seg), (sg_vram_class seg); split; reflexivity.
+Qed.
+
+Lemma append_nil_r' s : (s ++ "")%string = s.
+Proof. apply append_nil_r. Qed.
+
+Lemma headers_add_segment rt st cfg classes seg ws s ws' :
+  add_segment rt st cfg classes seg ws = Ok (s, ws') ->
+  headers s = (if should_emit rt (sg_conds seg) then segment_headers (linker_symbols_style st) seg else []) /\
+  rom_adds s = (if should_emit rt (sg_conds seg) then [alloc_name seg] else []).
+Proof.
+  intro H. apply add_segment_inv in H.
+  destruct H as [[Hc [E _]] | [Hc [cls [ws1 [s1 [ws2 [s2 [Ec [E1 [E2 E]]]]]]]]]]; subst; rewrite Hc; [split; reflexivity|].
+  apply headers_write_segment in E1. apply headers_write_segment in E2.
+  destruct E1 as [A1 B1]. destruct E2 as [A2 B2]. destruct (headers_foot st seg) as [A3 B3].
+  rewrite !headers_app, !rom_adds_app, A1, A2, A3, B1, B2, B3.
+  rewrite (headers_plain cls), (rom_adds_plain cls) by (eapply pl_class_part; eassumption).
+  rewrite (headers_plain _ (pl_seg_head _ _)), (rom_adds_plain _ (pl_seg_head _ _)).
+  split; [|reflexivity]. cbn. unfold segment_headers, alloc_name, noload_name. rewrite append_nil_r. reflexivity.
+Qed.
+
+Lemma headers_fold rt st cfg classes segs : forall ws s ws',
+  fold_out (add_segment rt st cfg classes) segs ws = Ok (s, ws') ->
+  headers s = flat_map (segment_headers (linker_symbols_style st)) (included rt segs) /\
+  rom_adds s = map alloc_name (included rt segs).
+Proof.
+  induction segs as [|seg r IH]; intros ws s ws' H.
+  - apply fold_out_nil in H. destruct H; subst. split; reflexivity.
+  - apply fold_out_cons in H. destruct H as [s1 [ws1 [s2 [E1 [E2 E]]]]]. subst.
+    destruct (IH _ _ _ E2) as [A2 B2]. destruct (headers_add_segment _ _ _ _ _ _ _ _ E1) as [A1 B1].
+    rewrite headers_app, rom_adds_app, A1, A2, B1, B2.
+    unfold included. cbn [filter]. destruct (should_emit rt (sg_conds seg)); split; reflexivity.
+Qed.
+
+(* single-segment mode: one header per configured section, none with an address or a load address,
+   the noload ones marked NOLOAD *)
+Lemma headers_single_groups rt st cfg seg sections noload rest : forall ws s ws',
+  single_groups rt st cfg seg sections noload rest ws = Ok (s, ws') ->
+  headers s = map (fun sec => (sec, None, None, noload)) rest /\ rom_adds s = [].
+Proof.
+  induction rest as [|section rest IH]; intros ws s ws' H.
+  - apply ok_inj in H. inversion H; subst. split; reflexivity.
+  - apply single_groups_cons in H. destruct H as [s1 [ws1 [s2 [E1 [E2 E]]]]]. subst.
+    destruct (IH _ _ _ E2) as [A B].
+    rewrite !headers_app, !rom_adds_app, A, B, (headers_plain _ (pl_section_symbol_start _ _ _ _ _)),
+      (headers_plain _ (pl_section_symbol_end _ _ _ _)), (rom_adds_plain _ (pl_section_symbol_start _ _ _ _ _)),
+      (rom_adds_plain _ (pl_section_symbol_end _ _ _ _)).
+    destruct rest; split; reflexivity.
+Qed.
+
+Lemma headers_write_single rt st cfg seg sections noload ws s ws' :
+  write_single_segment rt st cfg seg sections noload ws = Ok (s, ws') ->
+  headers s = map (fun sec => (sec, None, None, noload)) sections /\ rom_adds s = [].
+Proof.
+  intro H. apply write_single_segment_inv in H. destruct H as [body [E H]]. subst.
+  apply headers_single_groups in E. destruct E as [A B].
+  rewrite !headers_app, !rom_adds_app, A, B, (headers_plain _ (pl_kind_start _ _ _ _)), (headers_plain _ (pl_kind_end _ _ _ _)),
+    (rom_adds_plain _ (pl_kind_start _ _ _ _)), (rom_adds_plain _ (pl_kind_end _ _ _ _)).
+  rewrite app_nil_r. split; reflexivity.
+Qed.
+
+(* ====================================================================== *)
+(* C04, link level                                                         *)
+(* ====================================================================== *)
+
+Lemma filter_nil_existsb {A} (f : A -> bool) l : filter f l = [] -> existsb f l = false.
+Proof.
+  induction l as [|a l IH]; simpl; [reflexivity|]. destruct (f a); [discriminate|]. exact IH.
+Qed.
+
+Lemma defined_once_split x a s b :
+  defined_once x (a ++ s :: b) = true -> assigns x s = true ->
+  existsb (assigns x) a = false /\ existsb (assigns x) b = false.
+Proof.
+  unfold defined_once. intros H Hs. apply Nat.eqb_eq in H. rewrite filter_app in H. cbn [filter] in H.
+  rewrite Hs, app_length in H. cbn [List.length] in H.
+  split; apply filter_nil_existsb; apply length_zero_iff_nil; lia.
+Qed.
+
+Lemma align_up_1 x : align_up x 1 = x.
+Proof. reflexivity. Qed.
+
+Ltac split_ex H :=
+  match type of H with
+  | existsb _ (_ ++ _) = false =>
+      let H1 := fresh H in
+      let H2 := fresh H in
+      rewrite existsb_app in H; apply orb_false_iff in H; destruct H as [H1 H2]; split_ex H1; split_ex H2
+  | existsb ?f (?a :: ?l) = false =>
+      let H1 := fresh H in
+      let H2 := fresh H in
+      change (f a || existsb f l = false) in H; apply orb_false_iff in H; destruct H as [H1 H2]; split_ex H2
+  | _ => idtac
+  end.
+
+Section LinkSteps.
+  Variables (env : list (string * Z)) (senv : list osec) (ext : list (string * Z)) (final : bool).
+
+  Notation top := (exec_top_stmt env senv ext final).
+  Notation runl := (run env senv ext final).
+
+  Lemma top_align_sym st sym n v :
+    sym <> "."%string -> lookup sym (l_syms st) = Some v ->
+    top st (SAlign sym n) = set_sym sym (align_up v (Z.of_N n)) false st.
+  Proof.
+    intros Hd Hv. cbn [exec_top_stmt]. apply String.eqb_neq in Hd. rewrite Hd.
+    rewrite (sym_lookup_defined _ _ _ _ _ Hv). reflexivity.
+  Qed.
+
+  Lemma top_align_dot st n : top st (SAlign "." n) = set_dot (align_up (l_dot st) (Z.of_N n)) st.
+  Proof. reflexivity. Qed.
+
+  Lemma top_sym_sym st x y v :
+    x <> "."%string -> lookup y (l_syms st) = Some v ->
+    top st (linker_symbol x (ESym y)) = set_sym x v false st.
+  Proof.
+    intros Hd Hv. unfold linker_symbol. cbn [exec_top_stmt]. apply String.eqb_neq in Hd. rewrite Hd.
+    cbn [eval_expr]. rewrite (sym_lookup_defined _ _ _ _ _ Hv). reflexivity.
+  Qed.
+
+  Lemma top_sym_dot st x :
+    x <> "."%string -> top st (linker_symbol x EDot) = set_sym x (l_dot st) false st.
+  Proof.
+    intros Hd. unfold linker_symbol. cbn [exec_top_stmt]. apply String.eqb_neq in Hd. rewrite Hd. reflexivity.
+  Qed.
+
+  Lemma top_abssub st x a b va vb :
+    x <> "."%string -> lookup a (l_syms st) = Some va -> lookup b (l_syms st) = Some vb ->
+    top st (linker_symbol x (EAbsSub a b)) = set_sym x (va - vb) false st.
+  Proof.
+    intros Hd Ha Hb. unfold linker_symbol. cbn [exec_top_stmt]. apply String.eqb_neq in Hd. rewrite Hd.
+    cbn [eval_expr]. rewrite (sym_lookup_defined _ _ _ _ _ Ha), (sym_lookup_defined _ _ _ _ _ Hb). reflexivity.
+  Qed.
+
+  Lemma top_sub st x a b va vb :
+    x <> "."%string -> lookup a (l_syms st) = Some va -> lookup b (l_syms st) = Some vb ->
+    top st (linker_symbol x (ESub a b)) = set_sym x (va - vb) false st.
+  Proof.
+    intros Hd Ha Hb. unfold linker_symbol. cbn [exec_top_stmt]. apply String.eqb_neq in Hd. rewrite Hd.
+    cbn [eval_expr]. rewrite (sym_lookup_defined _ _ _ _ _ Ha), (sym_lookup_defined _ _ _ _ _ Hb). reflexivity.
+  Qed.
+
+  Lemma top_romadd st sec v o :
+    lookup "__romPos" (l_syms st) = Some v -> find_sec sec (l_secs st) = Some o ->
+    top st (SRomAdd sec) = set_sym "__romPos" (v + os_size o) false st.
+  Proof.
+    intros Hv Ho. cbn [exec_top_stmt]. rewrite (sym_lookup_defined _ _ _ _ _ Hv).
+    unfold sec_lookup. rewrite Ho. reflexivity.
+  Qed.
+
+  (* the pair "__romPos = ALIGN(__romPos, a); . = ALIGN(., a);" *)
+  Lemma run_align_pair a st r :
+    val st "__romPos" = Some r ->
+    val (runl (align_pair a) st) "__romPos" = Some (align_up r (align_z a)) /\
+    l_secs (runl (align_pair a) st) = l_secs st /\
+    l_dot (runl (align_pair a) st) = align_up (l_dot st) (align_z a) /\
+    (forall x, x <> "__romPos"%string -> val (runl (align_pair a) st) x = val st x).
+  Proof.
+    intro Hr. destruct a as [n|]; cbn [align_pair align_z].
+    - rewrite run_cons, run_one, (top_align_sym st "__romPos" n r) by (assumption || discriminate).
+      rewrite top_align_dot. unfold val. cbn [l_syms set_dot set_sym l_secs l_dot]. repeat split.
+      intros x Hx. cbn [lookup]. apply String.eqb_neq in Hx. rewrite Hx. reflexivity.
+    - rewrite run_nil, !align_up_1. auto.
+  Qed.
+
+  (* ---------- one segment ---------- *)
+
+  Definition foot_class (stg : settings) (seg : segment) : list stmt :=
+    (match sg_vram_class seg with
+     | Some cn => [SBlank; SMaxSelf (vram_class_end (linker_symbols_style stg) cn)
+                                    (segment_vram_end (linker_symbols_style stg) (sg_name seg))]
+     | None => [] end ++ [SBlank])%list.
+
+  Lemma seg_foot_split stg seg :
+    let sty := linker_symbols_style stg in
+    let name := sg_name seg in
+    seg_foot stg seg =
+    ((SRomAdd (alloc_name seg) :: align_pair (segment_end_align seg) ++
+      sym_end_size (segment_vram_start sty name) (segment_vram_end sty name) (segment_vram_size sty name) EDot) ++
+     linker_symbol (segment_rom_end sty name) (ESym "__romPos") ::
+     linker_symbol (segment_rom_size sty name) (EAbsSub (segment_rom_end sty name) (segment_rom_start sty name)) ::
+     foot_class stg seg)%list.
+  Proof.
+    cbv zeta. unfold seg_foot, sym_end_size, foot_class, align_pair, alloc_name. cbv zeta.
+    destruct (segment_end_align seg); reflexivity.
+  Qed.
+
+  Lemma seg_head_split stg seg :
+    let sty := linker_symbols_style stg in
+    let name := sg_name seg in
+    seg_head stg seg =
+    (align_pair (segment_start_align seg) ++
+     linker_symbol (segment_rom_start sty name) (ESym "__romPos") ::
+     [linker_symbol (segment_vram_start sty name) (EAddr (alloc_name seg))])%list.
+  Proof. reflexivity. Qed.
+
+  Lemma rf_align_pair_secs a : flat_map makes_sec (align_pair a) = [].
+  Proof. destruct a; reflexivity. Qed.
+
+  Theorem segment_rom_general stg seg cls a1 addr sub body1 b1 s2 st0 r :
+    let sty := linker_symbols_style stg in
+    let name := sg_name seg in
+    let RS := segment_rom_start sty name in
+    let RE := segment_rom_end sty name in
+    let RZ := segment_rom_size sty name in
+    let L1 := (cls ++ seg_head stg seg ++ a1 ++ [SOutSec (alloc_name seg) addr (Some RS) false sub body1] ++ b1)%list in
+    let L := (L1 ++ [SBlank] ++ s2 ++ [SBlank] ++ seg_foot stg seg)%list in
+    let st1 := runl L1 st0 in
+    let st' := runl L st0 in
+    val st0 "__romPos" = Some r ->
+    find_sec (alloc_name seg) (l_secs st0) = None ->
+    ~ In (alloc_name seg) (flat_map makes_sec (cls ++ a1)) ->
+    no_assign "__romPos" (cls ++ a1 ++ body1 ++ b1 ++ s2) = true ->
+    rom_names_distinct sty name L = true ->
+    ~ In (LForwardRef (alloc_name seg)) (l_errors st') ->
+    sizes_ok st0 ->
+    let rs := align_up r (align_z (segment_start_align seg)) in
+    exists o,
+      find_sec (alloc_name seg) (l_secs st1) = Some o /\
+      find_sec (alloc_name seg) (l_secs st') = Some o /\
+      os_lma o = Some rs /\ os_noload o = false /\ 0 <= os_size o /\
+      let re := align_up (rs + os_size o) (align_z (segment_end_align seg)) in
+      val st' "__romPos" = Some re /\ val st' RS = Some rs /\ val st' RE = Some re /\ val st' RZ = Some (re - rs).
+  Proof.
+    intros sty name RS RE RZ L1 L st1 st' Hr Hfresh Hnosec Hrf Hdist Herr Hsz rs.
+    set (VS := segment_vram_start sty name). set (VE := segment_vram_end sty name).
+    set (VZ := segment_vram_size sty name).
+    set (osec1 := SOutSec (alloc_name seg) addr (Some RS) false sub body1) in *.
+    set (F1 := (SRomAdd (alloc_name seg) :: align_pair (segment_end_align seg) ++ sym_end_size VS VE VZ EDot)%list).
+    set (sRS := linker_symbol RS (ESym "__romPos")).
+    set (sVS := linker_symbol VS (EAddr (alloc_name seg))).
+    set (sRE := linker_symbol RE (ESym "__romPos")).
+    set (sRZ := linker_symbol RZ (EAbsSub RE RS)).
+    (* the three decompositions of L *)
+    assert (EL : L = ((cls ++ align_pair (segment_start_align seg)) ++ sRS ::
+                      (sVS :: a1 ++ osec1 :: b1 ++ SBlank :: s2 ++ SBlank :: F1 ++ sRE :: sRZ :: foot_class stg seg))%list).
+    { unfold L, L1. rewrite seg_foot_split, seg_head_split. cbv zeta. fold sty name RS RE RZ VS VE VZ.
+      fold F1 sRS sVS sRE sRZ. repeat rewrite <- app_assoc. reflexivity. }
+    assert (EL2 : L = ((cls ++ align_pair (segment_start_align seg) ++ sRS :: sVS :: a1 ++ osec1 :: b1 ++ SBlank :: s2
+                        ++ SBlank :: F1) ++ sRE :: (sRZ :: foot_class stg seg))%list).
+    { rewrite EL. repeat rewrite <- app_assoc. cbn [app]. repeat rewrite <- app_assoc. cbn [app].
+      repeat (f_equal; try (repeat rewrite <- app_assoc; cbn [app])). }
+    assert (EL3 : L = ((cls ++ align_pair (segment_start_align seg) ++ sRS :: sVS :: a1 ++ osec1 :: b1 ++ SBlank :: s2
+                        ++ SBlank :: F1 ++ [sRE]) ++ sRZ :: foot_class stg seg)%list).
+    { rewrite EL2. repeat rewrite <- app_assoc. cbn [app]. repeat rewrite <- app_assoc. cbn [app].
+      repeat (f_equal; try (repeat rewrite <- app_assoc; cbn [app])). }
+    unfold rom_names_distinct in Hdist. apply andb_true_iff in Hdist. destruct Hdist as [Hdist HdZ].
+    apply andb_true_iff in Hdist. destruct Hdist as [HdS HdE].
+    assert (Hself : forall x e, assigns x (linker_symbol x e) = true) by (intros; apply String.eqb_refl).
+    rewrite EL in HdS. apply defined_once_split in HdS; [|apply Hself]. destruct HdS as [_ HS].
+    rewrite EL2 in HdE. apply defined_once_split in HdE; [|apply Hself]. destruct HdE as [_ HE].
+    rewrite EL3 in HdZ. apply defined_once_split in HdZ; [|apply Hself]. destruct HdZ as [_ HZ].
+    split_ex HS. split_ex HE.
+    apply negb_true_iff in Hrf. split_ex Hrf.
+    assert (S_vs : assigns RS sVS = false) by assumption.
+    assert (S_a1 : existsb (assigns RS) a1 = false) by assumption.
+    assert (S_o1 : assigns RS osec1 = false) by assumption.
+    assert (S_b1 : existsb (assigns RS) b1 = false) by assumption.
+    assert (S_s2 : existsb (assigns RS) s2 = false) by assumption.
+    assert (S_F1 : existsb (assigns RS) F1 = false) by assumption.
+    assert (S_re : assigns RS sRE = false) by assumption.
+    assert (S_rz : assigns RS sRZ = false) by assumption.
+    assert (S_fc : existsb (assigns RS) (foot_class stg seg) = false) by assumption.
+    assert (E_rz : assigns RE sRZ = false) by assumption.
+    assert (E_fc : existsb (assigns RE) (foot_class stg seg) = false) by assumption.
+    assert (Z_fc : existsb (assigns RZ) (foot_class stg seg) = false) by assumption.
+    assert (R_cls : existsb (assigns "__romPos") cls = false) by assumption.
+    assert (R_a1 : existsb (assigns "__romPos") a1 = false) by assumption.
+    assert (R_body1 : existsb (assigns "__romPos") body1 = false) by assumption.
+    assert (R_b1 : existsb (assigns "__romPos") b1 = false) by assumption.
+    assert (R_s2 : existsb (assigns "__romPos") s2 = false) by assumption.
+    unfold F1 in S_F1. split_ex S_F1.
+    assert (S_ves : existsb (assigns RS) (sym_end_size VS VE VZ EDot) = false) by assumption.
+    assert (EL1 : L1 = ((cls ++ align_pair (segment_start_align seg)) ++ sRS :: sVS :: a1 ++ osec1 :: b1)%list).
+    { unfold L1. rewrite seg_head_split. cbv zeta. fold sty name RS VS sRS sVS. repeat rewrite <- app_assoc. reflexivity. }
+    assert (ELL : L = (L1 ++ SBlank :: s2 ++ SBlank :: F1 ++ sRE :: sRZ :: foot_class stg seg)%list).
+    { rewrite EL, EL1. repeat rewrite <- app_assoc. cbn [app]. repeat rewrite <- app_assoc. cbn [app].
+      repeat (f_equal; try (repeat rewrite <- app_assoc; cbn [app])). }
+    assert (NS_rom : RS <> "__romPos"%string) by (apply (style_name_neq sty); [sn|reflexivity]).
+    assert (NS_dot : RS <> "."%string) by (apply (style_name_neq sty); [sn|reflexivity]).
+    assert (NE_rom : RE <> "__romPos"%string) by (apply (style_name_neq sty); [sn|reflexivity]).
+    assert (NE_dot : RE <> "."%string) by (apply (style_name_neq sty); [sn|reflexivity]).
+    assert (NZ_rom : RZ <> "__romPos"%string) by (apply (style_name_neq sty); [sn|reflexivity]).
+    assert (NZ_dot : RZ <> "."%string) by (apply (style_name_neq sty); [sn|reflexivity]).
+    assert (NVS_rom : assigns "__romPos" sVS = false) by (apply (rf_linker sty); sn).
+    rewrite flat_map_app in Hnosec.
+    assert (Hnosec_cls : ~ In (alloc_name seg) (flat_map makes_sec cls)) by (intro; apply Hnosec; apply in_or_app; auto).
+    assert (Hnosec_a1 : ~ In (alloc_name seg) (flat_map makes_sec (sVS :: a1)))
+      by (intro; apply Hnosec; apply in_or_app; auto).
+    (* after the class statements *)
+    set (stA := runl cls st0).
+    assert (A1 : val stA "__romPos" = Some r) by (unfold stA, val; rewrite run_syms; assumption).
+    assert (A2 : find_sec (alloc_name seg) (l_secs stA) = None) by (apply run_find_sec_none; assumption).
+    (* after the start alignment *)
+    set (stB := runl (align_pair (segment_start_align seg)) stA).
+    destruct (run_align_pair (segment_start_align seg) stA r A1) as [B1 [B2 _]]. fold stB rs in B1, B2.
+    assert (B3 : find_sec (alloc_name seg) (l_secs stB) = None) by (rewrite B2; assumption).
+    (* ROM_START = __romPos *)
+    set (stC := top stB sRS).
+    assert (EC : stC = set_sym RS rs false stB) by (apply top_sym_sym; assumption).
+    assert (C1 : val stC "__romPos" = Some rs) by (unfold val; rewrite EC, lookup_set_sym_other; assumption).
+    assert (C2 : val stC RS = Some rs) by (unfold val; rewrite EC; apply lookup_set_sym_same).
+    assert (C3 : find_sec (alloc_name seg) (l_secs stC) = None) by (rewrite EC; assumption).
+    (* VRAM = ADDR(.name), the kind symbols *)
+    set (stE := runl (sVS :: a1) stC).
+    assert (E1 : val stE "__romPos" = Some rs).
+    { unfold stE, val. rewrite run_syms; [assumption|]. cbn [existsb]. rewrite NVS_rom, R_a1. reflexivity. }
+    assert (E2 : val stE RS = Some rs).
+    { unfold stE, val. rewrite run_syms; [assumption|]. cbn [existsb]. rewrite S_vs, S_a1. reflexivity. }
+    assert (E3 : find_sec (alloc_name seg) (l_secs stE) = None) by (apply run_find_sec_none; assumption).
+    (* the allocatable output section *)
+    set (stF := top stE osec1).
+    assert (Est1 : st1 = runl b1 stF).
+    { unfold st1, stF, stE, stC, stB, stA. rewrite EL1. repeat (rewrite run_app || rewrite run_cons). reflexivity. }
+    assert (Est' : st' = runl (SBlank :: s2 ++ SBlank :: F1 ++ sRE :: sRZ :: foot_class stg seg) st1).
+    { unfold st', st1. rewrite ELL, run_app. reflexivity. }
+    destruct (outsec_vma env senv ext addr sub body1 stE) as [vma|e] eqn:Evma.
+    2:{ exfalso. apply Herr. rewrite Est', Est1. apply run_errors_in. apply run_errors_in.
+        unfold stF, osec1. cbn [exec_top_stmt]. rewrite (exec_outsec_err _ _ _ _ _ _ _ _ _ _ _ _ Evma).
+        cbn [add_err l_errors]. apply in_or_app. right. left. reflexivity. }
+    destruct (exec_outsec_ok env senv ext final (alloc_name seg) addr (Some RS) false sub body1 stE vma Evma)
+      as [_ [Fsyms [_ [Fsecs _]]]].
+    set (ss := outsec_body env senv ext final (alloc_name seg) sub body1 vma stE) in *.
+    change (exec_outsec env senv ext final (alloc_name seg) addr (Some RS) false sub body1 stE) with stF in Fsyms, Fsecs.
+    cbn [assigns osec1] in S_o1.
+    assert (F0 : lookup RS (l_syms (s_st ss)) = Some rs).
+    { unfold ss, outsec_body. rewrite sec_fold_syms by assumption. exact E2. }
+    assert (F1' : val stF "__romPos" = Some rs).
+    { unfold val. rewrite Fsyms. unfold ss, outsec_body. rewrite sec_fold_syms by assumption. exact E1. }
+    assert (F2 : val stF RS = Some rs) by (unfold val; rewrite Fsyms; exact F0).
+    set (o := OSec (alloc_name seg) vma (s_off ss) (Some rs) false (s_contents ss && negb false)).
+    assert (F3 : find_sec (alloc_name seg) (l_secs stF) = Some o).
+    { rewrite Fsecs, find_sec_app_none by assumption. rewrite (sym_lookup_defined _ _ _ _ _ F0).
+      unfold find_sec. cbn [find os_name]. rewrite String.eqb_refl. reflexivity. }
+    exists o.
+    assert (G1 : val st1 "__romPos" = Some rs) by (rewrite Est1; unfold val; rewrite run_syms; assumption).
+    assert (G2 : val st1 RS = Some rs) by (rewrite Est1; unfold val; rewrite run_syms; assumption).
+    assert (G3 : find_sec (alloc_name seg) (l_secs st1) = Some o) by (rewrite Est1; apply run_find_sec; assumption).
+    split; [exact G3|].
+    split; [rewrite Est'; apply run_find_sec; exact G3|].
+    split; [reflexivity|]. split; [reflexivity|].
+    split.
+    { cbn [os_size o]. apply outsec_body_off.
+      assert (EE : stE = runl (cls ++ align_pair (segment_start_align seg) ++ sRS :: sVS :: a1) st0).
+      { unfold stE, stC, stB, stA. repeat (rewrite run_app || rewrite run_cons). reflexivity. }
+      rewrite EE. apply run_remaining_Forall. exact Hsz. }
+    intro re.
+    (* the noload part *)
+    set (stH := runl (SBlank :: s2 ++ [SBlank]) st1).
+    assert (H1 : val stH "__romPos" = Some rs).
+    { unfold stH, val. rewrite run_syms; [assumption|]. cbn [existsb assigns]. rewrite existsb_app, R_s2. reflexivity. }
+    assert (H2 : val stH RS = Some rs).
+    { unfold stH, val. rewrite run_syms; [assumption|]. cbn [existsb assigns]. rewrite existsb_app, S_s2. reflexivity. }
+    assert (H3 : find_sec (alloc_name seg) (l_secs stH) = Some o) by (apply run_find_sec; assumption).
+    (* the foot: __romPos += SIZEOF(.name), end alignment, VRAM end and size *)
+    set (stI := top stH (SRomAdd (alloc_name seg))).
+    assert (EI : stI = set_sym "__romPos" (rs + os_size o) false stH) by (apply top_romadd; assumption).
+    assert (I1 : val stI "__romPos" = Some (rs + os_size o)) by (unfold val; rewrite EI; apply lookup_set_sym_same).
+    assert (I2 : val stI RS = Some rs).
+    { unfold val. rewrite EI, lookup_set_sym_other; [assumption|]. intro E. apply NS_rom. symmetry. exact E. }
+    set (stJ := runl (align_pair (segment_end_align seg)) stI).
+    destruct (run_align_pair (segment_end_align seg) stI _ I1) as [J1 [_ [_ J2]]]. fold stJ re in J1, J2.
+    assert (J3 : val stJ RS = Some rs) by (rewrite J2; assumption).
+    set (stK := runl (sym_end_size VS VE VZ EDot) stJ).
+    assert (K1 : val stK "__romPos" = Some re).
+    { unfold stK, val. rewrite run_syms; [assumption|]. unfold sym_end_size. cbn [existsb].
+      rewrite !(rf_linker sty) by sn. reflexivity. }
+    assert (K2 : val stK RS = Some rs) by (unfold stK, val; rewrite run_syms; assumption).
+    (* ROM_END = __romPos; ROM_SIZE = ABSOLUTE(ROM_END - ROM_START) *)
+    set (stM := top stK sRE).
+    assert (EM : stM = set_sym RE re false stK) by (apply top_sym_sym; assumption).
+    cbn [assigns linker_symbol sRE] in S_re. apply String.eqb_neq in S_re.
+    assert (M1 : val stM "__romPos" = Some re) by (unfold val; rewrite EM, lookup_set_sym_other; assumption).
+    assert (M2 : val stM RS = Some rs) by (unfold val; rewrite EM, lookup_set_sym_other; assumption).
+    assert (M3 : val stM RE = Some re) by (unfold val; rewrite EM; apply lookup_set_sym_same).
+    set (stN := top stM sRZ).
+    assert (EN : stN = set_sym RZ (re - rs) false stM) by (apply top_abssub; assumption).
+    cbn [assigns linker_symbol sRZ] in S_rz, E_rz.
+    apply String.eqb_neq in S_rz. apply String.eqb_neq in E_rz.
+    assert (N1 : val stN "__romPos" = Some re) by (unfold val; rewrite EN, lookup_set_sym_other; assumption).
+    assert (N2 : val stN RS = Some rs) by (unfold val; rewrite EN, lookup_set_sym_other; assumption).
+    assert (N3 : val stN RE = Some re) by (unfold val; rewrite EN, lookup_set_sym_other; assumption).
+    assert (N4 : val stN RZ = Some (re - rs)) by (unfold val; rewrite EN; apply lookup_set_sym_same).
+    assert (Efin : st' = runl (foot_class stg seg) stN).
+    { rewrite Est'. unfold stN, stM, stK, stJ, stI, stH, F1.
+      repeat (rewrite run_app || rewrite run_cons). reflexivity. }
+    assert (Hcls_rom : existsb (assigns "__romPos") (foot_class stg seg) = false).
+    { unfold foot_class. destruct (sg_vram_class seg) as [cn|]; [|reflexivity]. cbn [app existsb assigns].
+      rewrite (style_name_eqb sty); [reflexivity | sn | reflexivity]. }
+    rewrite Efin. unfold val. rewrite !run_syms by assumption. auto.
+  Qed.
+
+  (* a NOLOAD output section: its contents are never loaded, whatever it receives *)
+  Lemma noload_section name at_ sub body st :
+    let st' := exec_outsec env senv ext final name None at_ true sub body st in
+    exists o, l_secs st' = (l_secs st ++ [o])%list /\ os_name o = name /\
+              os_noload o = true /\ os_contents o = false /\
+              os_vma o = align_up (l_dot st) (body_align (option_map Z.of_N sub) body (l_remaining st) 1).
+  Proof.
+    intro st'.
+    destruct (exec_outsec_ok env senv ext final name None at_ true sub body st _ eq_refl) as [_ [_ [_ [Hs _]]]].
+    eexists. split; [exact Hs|]. cbn [os_name os_noload os_contents os_vma]. rewrite andb_false_r. auto.
+  Qed.
+
+  Lemma alloc_name_outsec stg seg body :
+    outsec_of stg seg false body =
+    SOutSec (alloc_name seg) (segment_addr (linker_symbols_style stg) seg)
+            (Some (segment_rom_start (linker_symbols_style stg) (sg_name seg))) false (subalign seg)
+            (opt_fill seg ++ body).
+  Proof. unfold outsec_of, alloc_name. rewrite append_nil_r. reflexivity. Qed.
+
+  Lemma noload_name_outsec stg seg body :
+    outsec_of stg seg true body = SOutSec (noload_name seg) None None true (subalign seg) (opt_fill seg ++ body).
+  Proof. reflexivity. Qed.
+
+  (* the statements of an included segment, as add_segment produces them *)
+  Theorem segment_rom rt stg cfg classes seg ws s ws' st0 r :
+    add_segment rt stg cfg classes seg ws = Ok (s, ws') ->
+    should_emit rt (sg_conds seg) = true ->
+    let sty := linker_symbols_style stg in
+    let name := sg_name seg in
+    let st' := runl s st0 in
+    val st0 "__romPos" = Some r ->
+    find_sec (alloc_name seg) (l_secs st0) = None ->
+    rom_names_distinct sty name s = true ->
+    ~ In (LForwardRef (alloc_name seg)) (l_errors st') ->
+    sizes_ok st0 ->
+    let rs := align_up r (align_z (segment_start_align seg)) in
+    exists o,
+      find_sec (alloc_name seg) (l_secs st') = Some o /\
+      os_lma o = Some rs /\ os_noload o = false /\ 0 <= os_size o /\
+      let re := align_up (rs + os_size o) (align_z (segment_end_align seg)) in
+      val st' "__romPos" = Some re /\
+      val st' (segment_rom_start sty name) = Some rs /\
+      val st' (segment_rom_end sty name) = Some re /\
+      val st' (segment_rom_size sty name) = Some (re - rs).
+  Proof.
+    intros H Hc sty name st' Hr Hfresh Hdist Herr Hsz rs. apply add_segment_inv in H.
+    destruct H as [[Hc' _] | [_ [cls [ws1 [s1 [ws2 [s2 [Ec [E1 [E2 E]]]]]]]]]]; [congruence|].
+    pose proof (nf_write_segment "__romPos" eq_refl rompos_gp rompos_dot _ _ _ _ _ _ _ _ _ E1) as R1.
+    pose proof (nf_write_segment "__romPos" eq_refl rompos_gp rompos_dot _ _ _ _ _ _ _ _ _ E2) as R2.
+    pose proof (nf_class_part "__romPos" eq_refl _ _ _ _ _ _ Ec) as R0.
+    pose proof (pl_class_part _ _ _ _ _ _ Ec) as P0.
+    apply write_segment_inv in E1. destruct E1 as [body1 [_ E1]].
+    rewrite alloc_name_outsec in E1.
+    set (ks := sections_kind_start (linker_symbols_style stg) cfg seg false) in *.
+    set (ke := sections_kind_end (linker_symbols_style stg) cfg seg false) in *.
+    assert (Es : s = ((cls ++ seg_head stg seg ++ ks ++
+                       [SOutSec (alloc_name seg) (segment_addr sty seg) (Some (segment_rom_start sty name)) false
+                                (subalign seg) (opt_fill seg ++ body1)] ++ ke) ++
+                      [SBlank] ++ s2 ++ [SBlank] ++ seg_foot stg seg)%list).
+    { rewrite E, E1. repeat rewrite <- app_assoc. reflexivity. }
+    subst s1. subst st'. rewrite Es in Hdist, Herr |- *. clear Es E.
+    apply Forall_app in R1. destruct R1 as [R1a R1]. apply Forall_app in R1. destruct R1 as [R1b R1c].
+    inversion R1b as [|x l R1b' _]; subst x l. unfold nf in R1b'. cbn [assigns] in R1b'.
+    apply existsb_false_Forall in R1b'.
+    destruct (segment_rom_general stg seg cls ks (segment_addr sty seg) (subalign seg) (opt_fill seg ++ body1) ke s2 st0 r)
+      as [o [_ [Ho [Hl [Hn [Hz Hv]]]]]]; try assumption.
+    - rewrite flat_map_app, (makes_sec_plain cls P0), (makes_sec_plain ks (pl_kind_start _ _ _ _)). intros [].
+    - apply no_assign_Forall. apply Forall_app; split; [exact R0|]. apply Forall_app; split; [exact R1a|].
+      apply Forall_app; split; [exact R1b'|]. apply Forall_app; split; [exact R1c | exact R2].
+    - exists o. auto.
+  Qed.
+
+  (* the ROM symbols and the ROM position do not depend on the noload part: any other noload
+     statements give the same values *)
+  Theorem noload_independent stg seg cls a1 addr sub body1 b1 s2 s2' st0 r :
+    let sty := linker_symbols_style stg in
+    let name := sg_name seg in
+    let RS := segment_rom_start sty name in
+    let L1 := (cls ++ seg_head stg seg ++ a1 ++ [SOutSec (alloc_name seg) addr (Some RS) false sub body1] ++ b1)%list in
+    let L := fun s2 => (L1 ++ [SBlank] ++ s2 ++ [SBlank] ++ seg_foot stg seg)%list in
+    val st0 "__romPos" = Some r ->
+    find_sec (alloc_name seg) (l_secs st0) = None ->
+    ~ In (alloc_name seg) (flat_map makes_sec (cls ++ a1)) ->
+    no_assign "__romPos" (cls ++ a1 ++ body1 ++ b1 ++ s2) = true ->
+    no_assign "__romPos" (cls ++ a1 ++ body1 ++ b1 ++ s2') = true ->
+    rom_names_distinct sty name (L s2) = true ->
+    rom_names_distinct sty name (L s2') = true ->
+    ~ In (LForwardRef (alloc_name seg)) (l_errors (runl (L s2) st0)) ->
+    ~ In (LForwardRef (alloc_name seg)) (l_errors (runl (L s2') st0)) ->
+    sizes_ok st0 ->
+    forall x, In x ["__romPos"%string; RS; segment_rom_end sty name; segment_rom_size sty name] ->
+              val (runl (L s2) st0) x = val (runl (L s2') st0) x.
+  Proof.
+    intros sty name RS L1 L Hr Hfresh Hnosec Hrf Hrf' Hd Hd' He He' Hsz x Hx.
+    destruct (segment_rom_general stg seg cls a1 addr sub body1 b1 s2 st0 r Hr Hfresh Hnosec Hrf Hd He Hsz)
+      as [o [Ho1 [_ [_ [_ [_ [V1 [V2 [V3 V4]]]]]]]]].
+    destruct (segment_rom_general stg seg cls a1 addr sub body1 b1 s2' st0 r Hr Hfresh Hnosec Hrf' Hd' He' Hsz)
+      as [o' [Ho1' [_ [_ [_ [_ [V1' [V2' [V3' V4']]]]]]]]].
+    rewrite Ho1 in Ho1'. inversion Ho1'; subst o'.
+    fold sty name RS L1 in V1, V2, V3, V4, V1', V2', V3', V4'.
+    cbn [In] in Hx. destruct Hx as [E|[E|[E|[E|[]]]]]; subst x; unfold L; congruence.
+  Qed.
+End LinkSteps.
+
+(* ---------- all the segments ---------- *)
+
+Lemma existsb_filter_nonempty {A} (f : A -> bool) l : existsb f l = true -> (1 <= List.length (filter f l))%nat.
+Proof.
+  induction l as [|a l IH]; simpl; [discriminate|]. destruct (f a); simpl; [lia|]. exact IH.
+Qed.
+
+Lemma defined_once_app_l x a b :
+  defined_once x (a ++ b) = true -> existsb (assigns x) a = true ->
+  defined_once x a = true /\ existsb (assigns x) b = false.
+Proof.
+  unfold defined_once. intros H Ha. apply Nat.eqb_eq in H. rewrite filter_app, app_length in H.
+  apply existsb_filter_nonempty in Ha. split.
+  - apply Nat.eqb_eq. lia.
+  - apply filter_nil_existsb. apply length_zero_iff_nil. lia.
+Qed.
+
+Lemma defined_once_app_r x a b :
+  defined_once x (a ++ b) = true -> existsb (assigns x) b = true ->
+  defined_once x b = true /\ existsb (assigns x) a = false.
+Proof.
+  unfold defined_once. intros H Hb. apply Nat.eqb_eq in H. rewrite filter_app, app_length in H.
+  apply existsb_filter_nonempty in Hb. split.
+  - apply Nat.eqb_eq. lia.
+  - apply filter_nil_existsb. apply length_zero_iff_nil. lia.
+Qed.
+
+Definition rom_assigned (sty : style) (name : string) (l : list stmt) : Prop :=
+  existsb (assigns (segment_rom_start sty name)) l = true /\
+  existsb (assigns (segment_rom_end sty name)) l = true /\
+  existsb (assigns (segment_rom_size sty name)) l = true.
+
+Definition rom_untouched (sty : style) (name : string) (l : list stmt) : Prop :=
+  existsb (assigns (segment_rom_start sty name)) l = false /\
+  existsb (assigns (segment_rom_end sty name)) l = false /\
+  existsb (assigns (segment_rom_size sty name)) l = false.
+
+Lemma rnd_app_l sty name a b :
+  rom_names_distinct sty name (a ++ b) = true -> rom_assigned sty name a ->
+  rom_names_distinct sty name a = true /\ rom_untouched sty name b.
+Proof.
+  unfold rom_names_distinct. intros H [A1 [A2 A3]].
+  apply andb_true_iff in H. destruct H as [H H3]. apply andb_true_iff in H. destruct H as [H1 H2].
+  destruct (defined_once_app_l _ _ _ H1 A1) as [D1 U1]. destruct (defined_once_app_l _ _ _ H2 A2) as [D2 U2].
+  destruct (defined_once_app_l _ _ _ H3 A3) as [D3 U3]. rewrite D1, D2, D3. repeat split; assumption.
+Qed.
+
+Lemma rnd_app_r sty name a b :
+  rom_names_distinct sty name (a ++ b) = true -> rom_assigned sty name b ->
+  rom_names_distinct sty name b = true /\ rom_untouched sty name a.
+Proof.
+  unfold rom_names_distinct. intros H [A1 [A2 A3]].
+  apply andb_true_iff in H. destruct H as [H H3]. apply andb_true_iff in H. destruct H as [H1 H2].
+  destruct (defined_once_app_r _ _ _ H1 A1) as [D1 U1]. destruct (defined_once_app_r _ _ _ H2 A2) as [D2 U2].
+  destruct (defined_once_app_r _ _ _ H3 A3) as [D3 U3]. rewrite D1, D2, D3. repeat split; assumption.
+Qed.
+
+Lemma existsb_in_true {A} (f : A -> bool) l s : In s l -> f s = true -> existsb f l = true.
+Proof. intros Hin Hs. apply existsb_exists. exists s. auto. Qed.
+
+Lemma rom_assigned_add_segment rt stg cfg classes seg ws s ws' :
+  add_segment rt stg cfg classes seg ws = Ok (s, ws') -> should_emit rt (sg_conds seg) = true ->
+  rom_assigned (linker_symbols_style stg) (sg_name seg) s.
+Proof.
+  intros H Hc. apply add_segment_inv in H.
+  destruct H as [[Hc' _] | [_ [cls [ws1 [s1 [ws2 [s2 [Ec [E1 [E2 E]]]]]]]]]]; [congruence|]. subst s.
+  assert (Hself : forall x e, assigns x (linker_symbol x e) = true) by (intros; apply String.eqb_refl).
+  rewrite seg_head_split, seg_foot_split. cbv zeta. repeat split.
+  - eapply existsb_in_true; [|apply (Hself _ (ESym "__romPos"))].
+    apply in_or_app; right. apply in_or_app; left. apply in_or_app; right. left. reflexivity.
+  - eapply existsb_in_true; [|apply (Hself _ (ESym "__romPos"))].
+    do 6 (apply in_or_app; right). apply in_or_app; right. left. reflexivity.
+  - eapply existsb_in_true; [|apply Hself].
+    do 6 (apply in_or_app; right). apply in_or_app; right. right. left. reflexivity.
+Qed.
+
+Lemma rom_assigned_app_l sty name a b : rom_assigned sty name a -> rom_assigned sty name (a ++ b).
+Proof. intros [A1 [A2 A3]]. unfold rom_assigned. rewrite !existsb_app, A1, A2, A3. auto. Qed.
+
+Lemma rom_assigned_app_r sty name a b : rom_assigned sty name b -> rom_assigned sty name (a ++ b).
+Proof. intros [A1 [A2 A3]]. unfold rom_assigned. rewrite !existsb_app, A1, A2, A3, !orb_true_r. auto. Qed.
+
+Lemma rom_assigned_fold rt stg cfg classes segs : forall ws body ws' seg,
+  fold_out (add_segment rt stg cfg classes) segs ws = Ok (body, ws') ->
+  In seg (included rt segs) -> rom_assigned (linker_symbols_style stg) (sg_name seg) body.
+Proof.
+  induction segs as [|x r IH]; intros ws body ws' seg H Hin; [contradiction|].
+  apply fold_out_cons in H. destruct H as [s1 [ws1 [s2 [E1 [E2 E]]]]]. subst body.
+  unfold included in Hin. cbn [filter] in Hin. destruct (should_emit rt (sg_conds x)) eqn:Hc.
+  - destruct Hin as [Hin|Hin].
+    + subst x. apply rom_assigned_app_l. eapply rom_assigned_add_segment; eassumption.
+    + apply rom_assigned_app_r. eapply IH; eassumption.
+  - apply rom_assigned_app_r. eapply IH; eassumption.
+Qed.
+
+Lemma makes_sec_write_segment rt stg cfg seg sections noload ws s ws' :
+  write_segment rt stg cfg seg sections noload ws = Ok (s, ws') ->
+  flat_map makes_sec s = [if noload then noload_name seg else alloc_name seg].
+Proof.
+  intro H. apply write_segment_inv in H. destruct H as [body [E H]]. subst.
+  rewrite !flat_map_app, (makes_sec_plain _ (pl_kind_start _ _ _ _)), (makes_sec_plain _ (pl_kind_end _ _ _ _)).
+  destruct noload; [reflexivity|]. rewrite alloc_name_outsec. reflexivity.
+Qed.
+
+Lemma pl_seg_foot stg seg : flat_map makes_sec (seg_foot stg seg) = [].
+Proof. unfold seg_foot, sym_end_size. cbv zeta. destruct (segment_end_align seg), (sg_vram_class seg); reflexivity. Qed.
+
+Lemma makes_sec_add_segment rt stg cfg classes seg ws s ws' :
+  add_segment rt stg cfg classes seg ws = Ok (s, ws') ->
+  flat_map makes_sec s = if should_emit rt (sg_conds seg) then [alloc_name seg; noload_name seg] else [].
+Proof.
+  intro H. apply add_segment_inv in H.
+  destruct H as [[Hc [E _]] | [Hc [cls [ws1 [s1 [ws2 [s2 [Ec [E1 [E2 E]]]]]]]]]]; subst; rewrite Hc; [reflexivity|].
+  rewrite !flat_map_app, (makes_sec_write_segment _ _ _ _ _ _ _ _ _ E1), (makes_sec_write_segment _ _ _ _ _ _ _ _ _ E2),
+    (makes_sec_plain cls (pl_class_part _ _ _ _ _ _ Ec)), (makes_sec_plain _ (pl_seg_head _ _)), pl_seg_foot.
+  reflexivity.
+Qed.
+
+Section Chain.
+  Variables (env : list (string * Z)) (senv : list osec) (ext : list (string * Z)) (final : bool).
+  Notation runl := (run env senv ext final).
+
+  (* later statements that do not touch the ROM symbols leave the chain as it is *)
+  Lemma RomChain_frame sty tail segs : forall st r,
+    existsb (assigns "__romPos") tail = false ->
+    (forall seg, In seg segs -> rom_untouched sty (sg_name seg) tail) ->
+    RomChain sty st r segs -> RomChain sty (runl tail st) r segs.
+  Proof.
+    induction segs as [|seg rest IH]; intros st r Hrom Hun H.
+    - cbn [RomChain] in *. unfold val. rewrite run_syms; assumption.
+    - cbn [RomChain] in *. destruct H as [o [Ho [Hl [Hn [Hz [V1 [V2 [V3 Hrest]]]]]]]].
+      destruct (Hun seg (or_introl eq_refl)) as [U1 [U2 U3]].
+      exists o. split; [apply run_find_sec; assumption|]. repeat split; try assumption.
+      + unfold val. rewrite run_syms; assumption.
+      + unfold val. rewrite run_syms; assumption.
+      + unfold val. rewrite run_syms; assumption.
+      + apply IH; try assumption. intros s Hs. apply Hun. right. assumption.
+  Qed.
+
+  Theorem rom_chain_fold rt stg cfg classes segs : forall ws body ws' st0 r,
+    fold_out (add_segment rt stg cfg classes) segs ws = Ok (body, ws') ->
+    let sty := linker_symbols_style stg in
+    val st0 "__romPos" = Some r ->
+    (forall seg, In seg (included rt segs) -> find_sec (alloc_name seg) (l_secs st0) = None) ->
+    NoDup (out_names (included rt segs)) ->
+    (forall seg, In seg (included rt segs) -> rom_names_distinct sty (sg_name seg) body = true) ->
+    (forall n, ~ In (LForwardRef n) (l_errors (runl body st0))) ->
+    sizes_ok st0 ->
+    RomChain sty (runl body st0) r (included rt segs).
+  Proof.
+    induction segs as [|seg rest IH]; intros ws body ws' st0 r H sty Hr Hfresh Hnd Hdist Herr Hsz.
+    - apply fold_out_nil in H. destruct H; subst. exact Hr.
+    - apply fold_out_cons in H. destruct H as [s1 [ws1 [body_r [E1 [E2 E]]]]]. subst body.
+      unfold included in *. cbn [filter] in *. destruct (should_emit rt (sg_conds seg)) eqn:Hc.
+      + (* an emitted segment *)
+        pose proof (rom_assigned_add_segment _ _ _ _ _ _ _ _ E1 Hc) as Hass.
+        destruct (rnd_app_l _ _ _ _ (Hdist seg (or_introl eq_refl)) Hass) as [Hd1 [U1 [U2 U3]]].
+        rewrite run_app in *.
+        set (st1 := runl s1 st0) in *.
+        destruct (segment_rom env senv ext final rt stg cfg classes seg ws s1 ws1 st0 r E1 Hc Hr
+                    (Hfresh seg (or_introl eq_refl)) Hd1) as [o [Ho [Hl [Hn [Hz [V0 [V1 [V2 V3]]]]]]]].
+        { fold st1. intro Hin. apply (Herr (alloc_name seg)). apply run_errors_in. exact Hin. }
+        { exact Hsz. }
+        fold st1 sty in Ho, V0, V1, V2, V3.
+        cbn [RomChain]. exists o. split; [apply run_find_sec; exact Ho|].
+        split; [exact Hl|]. split; [exact Hn|]. split; [exact Hz|].
+        split; [unfold val; rewrite run_syms; assumption|].
+        split; [unfold val; rewrite run_syms; assumption|].
+        split; [unfold val; rewrite run_syms; assumption|].
+        cbn [out_names flat_map app] in Hnd. inversion Hnd as [|x l Hn1 Hnd1]; subst x l.
+        inversion Hnd1 as [|x l Hn2 Hnd2]; subst x l.
+        apply (IH ws1 body_r ws' st1); try assumption.
+        * intros seg' Hin. apply run_find_sec_none; [apply Hfresh; right; assumption|].
+          rewrite (makes_sec_add_segment _ _ _ _ _ _ _ _ E1), Hc.
+          assert (Hin' : In (alloc_name seg') (out_names (filter (fun s => should_emit rt (sg_conds s)) rest))).
+          { unfold out_names. apply in_flat_map. exists seg'. split; [assumption|left; reflexivity]. }
+          intros [Ea|[Ea|[]]].
+          -- apply Hn1. right. rewrite Ea. exact Hin'.
+          -- apply Hn2. rewrite Ea. exact Hin'.
+        * intros seg' Hin.
+          apply (rnd_app_r _ _ s1 body_r (Hdist seg' (or_intror Hin))).
+          eapply rom_assigned_fold; eassumption.
+        * unfold st1. apply run_remaining_Forall. exact Hsz.
+      + (* an excluded segment emits nothing *)
+        rewrite (add_segment_excluded _ _ _ _ _ _ Hc) in E1. apply ok_inj in E1. inversion E1; subst s1 ws1.
+        cbn [app] in *. eapply IH; eassumption.
+  Qed.
+
+  (* the head of the SECTIONS block sets the ROM position to 0 *)
+  Lemma run_begin stg st :
+    let st' := runl (begin_sections_body stg) st in
+    val st' "__romPos" = Some 0 /\ l_secs st' = l_secs st /\ l_remaining st' = l_remaining st /\
+    l_errors st' = l_errors st /\ l_dot st' = l_dot st.
+  Proof.
+    cbv zeta. rewrite begin_sections_rom, run_cons. unfold rom_init. cbn [exec_top_stmt String.eqb Ascii.eqb Bool.eqb].
+    cbn [eval_expr]. rewrite eval_raw_0x0, assign_ok, run_app. unfold hardcoded_gp_stmts.
+    destruct (hardcoded_gp_value stg) as [v|]; cbn; auto.
+  Qed.
+
+  Theorem rom_chain_sections rt stg cfg classes segs ws body ws' st0 :
+    fold_out (add_segment rt stg cfg classes) segs ws = Ok (body, ws') ->
+    let sty := linker_symbols_style stg in
+    let all := (begin_sections_body stg ++ body ++ end_sections_body stg classes ws')%list in
+    (forall seg, In seg (included rt segs) -> find_sec (alloc_name seg) (l_secs st0) = None) ->
+    NoDup (out_names (included rt segs)) ->
+    (forall seg, In seg (included rt segs) -> rom_names_distinct sty (sg_name seg) all = true) ->
+    (forall n, ~ In (LForwardRef n) (l_errors (runl all st0))) ->
+    sizes_ok st0 ->
+    RomChain sty (runl all st0) 0 (included rt segs).
+  Proof.
+    intros H sty all Hfresh Hnd Hdist Herr Hsz. unfold all in *. rewrite !run_app in *.
+    destruct (run_begin stg st0) as [B1 [B2 [B3 [B4 B5]]]].
+    set (stb := runl (begin_sections_body stg) st0) in *.
+    assert (Hd2 : forall seg, In seg (included rt segs) ->
+                    rom_names_distinct sty (sg_name seg) body = true /\
+                    rom_untouched sty (sg_name seg) (end_sections_body stg classes ws')).
+    { intros seg Hin. pose proof (rom_assigned_fold _ _ _ _ _ _ _ _ _ H Hin) as Hass.
+      destruct (rnd_app_r _ _ _ _ (Hdist seg Hin) (rom_assigned_app_l _ _ _ _ Hass)) as [D _].
+      apply (rnd_app_l _ _ _ _ D Hass). }
+    apply RomChain_frame.
+    - apply existsb_false_Forall. apply nf_end_sections; solve [reflexivity | discriminate].
+    - intros seg Hin. apply (Hd2 seg Hin).
+    - eapply rom_chain_fold; try eassumption.
+      + intros seg Hin. rewrite B2. apply Hfresh. assumption.
+      + intros seg Hin. apply (Hd2 seg Hin).
+      + intros n Hin. apply (Herr n). apply run_errors_in. exact Hin.
+      + unfold sizes_ok. rewrite B3. exact Hsz.
+  Qed.
+End Chain.
+
+(* ---------- ROM addresses never go backwards ---------- *)
+
+Lemma RomChain_lower sty st l b l3 : forall r,
+  RomChain sty st r (l ++ b :: l3) ->
+  exists sb, val st (segment_rom_start sty (sg_name b)) = Some sb /\ r <= sb.
+Proof.
+  induction l as [|a l IH]; intros r H; cbn [app RomChain] in H;
+    destruct H as [o [_ [_ [_ [Hz [V1 [_ [_ Hrest]]]]]]]].
+  - eexists. split; [exact V1|]. apply align_up_le.
+  - destruct (IH _ Hrest) as [sb [Vb Hb]]. exists sb. split; [exact Vb|].
+    pose proof (align_up_le r (align_z (segment_start_align a))).
+    pose proof (align_up_le (align_up r (align_z (segment_start_align a)) + os_size o) (align_z (segment_end_align a))).
+    lia.
+Qed.
+
+Lemma rom_monotone sty st l1 a l2 b l3 : forall r,
+  RomChain sty st r (l1 ++ a :: l2 ++ b :: l3) ->
+  exists sa ea sb,
+    val st (segment_rom_start sty (sg_name a)) = Some sa /\
+    val st (segment_rom_end sty (sg_name a)) = Some ea /\
+    val st (segment_rom_start sty (sg_name b)) = Some sb /\
+    r <= sa /\ sa <= ea /\ ea <= sb.
+Proof.
+  induction l1 as [|x l1 IH]; intros r H; cbn [app RomChain] in H;
+    destruct H as [o [_ [_ [_ [Hz [V1 [V2 [_ Hrest]]]]]]]].
+  - destruct (RomChain_lower _ _ _ _ _ _ Hrest) as [sb [Vb Hb]].
+    eexists _, _, sb. split; [exact V1|]. split; [exact V2|]. split; [exact Vb|].
+    pose proof (align_up_le r (align_z (segment_start_align a))).
+    pose proof (align_up_le (align_up r (align_z (segment_start_align a)) + os_size o) (align_z (segment_end_align a))).
+    lia.
+  - destruct (IH _ Hrest) as [sa [ea [sb [Va [Ve [Vb [H1 [H2 H3]]]]]]]]. exists sa, ea, sb.
+    repeat split; try assumption.
+    pose proof (align_up_le r (align_z (segment_start_align x))).
+    pose proof (align_up_le (align_up r (align_z (segment_start_align x)) + os_size o) (align_z (segment_end_align x))).
+    lia.
+Qed.
+
+(* ---------- script level, whole SECTIONS blocks ---------- *)
+
+Definition quiet (s : stmt) : Prop := header_of s = [] /\ rom_add_of s = [].
+
+Lemma headers_quiet l : Forall quiet l -> headers l = [] /\ rom_adds l = [].
+Proof.
+  induction 1 as [|a l [Ha Hb] Hl [IH1 IH2]]; [split; reflexivity|]. unfold headers, rom_adds in *. simpl.
+  rewrite Ha, Hb, IH1, IH2. split; reflexivity.
+Qed.
+
+Lemma quiet_end_sections st classes ws : Forall quiet (end_sections_body st classes ws).
+Proof.
+  rewrite end_sections_layout.
+  assert (Hparts : Forall (Forall quiet)
+                     [tail_sizes st classes ws; tail_allow st; tail_extra st; tail_discard st]).
+  { repeat constructor.
+    - apply Forall_map_intro. intro cn. split; reflexivity.
+    - apply Forall_map_intro. intro cn. split; reflexivity.
+    - apply Forall_map_intro. intro cn. split; reflexivity.
+    - unfold tail_discard. destruct (orb _ _); repeat constructor. }
+  induction Hparts as [|p r Hp Hr IH]; [constructor|]. simpl. destruct p as [|y p]; [exact IH|].
+  apply Forall_app; split; [exact Hp|]. destruct (sep_concat r); [constructor|].
+  constructor; [split; reflexivity | exact IH].
+Qed.
+
+Lemma quiet_begin st : Forall quiet (begin_sections_body st).
+Proof.
+  rewrite begin_sections_rom. constructor; [split; reflexivity|]. unfold hardcoded_gp_stmts.
+  destruct (hardcoded_gp_value st); repeat constructor.
+Qed.
+
+Lemma quiet_single_head st cfg seg : Forall quiet (single_head st cfg seg).
+Proof.
+  rewrite single_head_shape. destruct (section_syms cfg), (hardcoded_gp_value st), (sg_fixed_vram seg);
+    repeat constructor.
+Qed.
+
+Theorem script_multi rt stg cfg classes segs ws s ws' :
+  single_segment_mode stg = false ->
+  add_all_segments rt stg cfg classes segs ws = Ok (s, ws') ->
+  exists all rest,
+    s = [SSections all] /\ all = rom_init :: rest /\
+    filter (assigns "__romPos") all = rom_init :: flat_map segment_rom_stmts (included rt segs) /\
+    headers all = flat_map (segment_headers (linker_symbols_style stg)) (included rt segs) /\
+    rom_adds all = map alloc_name (included rt segs).
+Proof.
+  intros Hm H. apply add_all_segments_inv in H. destruct H as [[Hs _] | [_ [body [E H]]]]; [congruence|]. subst s.
+  eexists _, _. split; [reflexivity|]. split; [rewrite begin_sections_rom; reflexivity|].
+  split; [eapply rom_stmts_sections; eassumption|].
+  destruct (headers_fold _ _ _ _ _ _ _ _ E) as [A B].
+  destruct (headers_quiet _ (quiet_begin stg)) as [A1 B1].
+  destruct (headers_quiet _ (quiet_end_sections stg classes ws')) as [A2 B2].
+  rewrite !headers_app, !rom_adds_app, A, B, A1, B1, A2, B2, !app_nil_r. split; reflexivity.
+Qed.
+
+Lemma nf_write_single_segment x (Hx1 : ends_ok x = false) (Hx2 : x <> "_gp"%string) (Hx3 : x <> "."%string)
+      rt st cfg seg sections noload ws s ws' :
+  write_single_segment rt st cfg seg sections noload ws = Ok (s, ws') -> Forall (nf x) s.
+Proof.
+  intro H. apply write_single_segment_inv in H. destruct H as [body [E H]]. subst.
+  fa; [apply nf_kind_start; assumption | | apply nf_kind_end; assumption].
+  eapply nf_single_groups; eassumption.
+Qed.
+
+(* single-segment mode: no ROM bookkeeping at all, no address and no AT on any header, the noload
+   sections marked NOLOAD *)
+Theorem script_single rt stg cfg classes seg ws s ws' :
+  add_single_segment rt stg cfg classes seg ws = Ok (s, ws') ->
+  exists all,
+    s = [SSections all] /\
+    filter (assigns "__romPos") all = [] /\
+    headers all = (map (fun sec => (sec, None, None, false)) (alloc_sections seg) ++
+                   map (fun sec => (sec, None, None, true)) (noload_sections seg))%list /\
+    rom_adds all = [].
+Proof.
+  intro H. apply add_single_segment_inv in H. destruct H as [s1 [ws1 [s2 [E1 [E2 E]]]]]. subst s.
+  eexists. split; [reflexivity|].
+  pose proof (nf_write_single_segment "__romPos" eq_refl rompos_gp rompos_dot _ _ _ _ _ _ _ _ _ E1) as R1.
+  pose proof (nf_write_single_segment "__romPos" eq_refl rompos_gp rompos_dot _ _ _ _ _ _ _ _ _ E2) as R2.
+  destruct (headers_write_single _ _ _ _ _ _ _ _ _ E1) as [A1 B1].
+  destruct (headers_write_single _ _ _ _ _ _ _ _ _ E2) as [A2 B2].
+  destruct (headers_quiet _ (quiet_single_head stg cfg seg)) as [A0 B0].
+  destruct (headers_quiet _ (quiet_end_sections stg classes ws')) as [A3 B3].
+  split.
+  - rewrite !filter_app, (rf_filter s1 R1), (rf_filter s2 R2).
+    rewrite (rf_filter (end_sections_body stg classes ws')) by (apply nf_end_sections; solve [reflexivity|discriminate]).
+    rewrite single_head_shape.
+    destruct (section_syms cfg), (hardcoded_gp_value stg), (sg_fixed_vram seg); reflexivity.
+  - rewrite !headers_app, !rom_adds_app, A0, A1, A2, A3, B0, B1, B2, B3, !app_nil_r. split; reflexivity.
+Qed.
+
+Lemma script_segment rt stg cfg classes seg ws s ws' :
+  add_segment rt stg cfg classes seg ws = Ok (s, ws') ->
+  filter (assigns "__romPos") s = (if should_emit rt (sg_conds seg) then segment_rom_stmts seg else []) /\
+  headers s = (if should_emit rt (sg_conds seg) then segment_headers (linker_symbols_style stg) seg else []) /\
+  rom_adds s = (if should_emit rt (sg_conds seg) then [alloc_name seg] else []).
+Proof.
+  intro H. split.
+  - exact (rom_stmts_add_segment rt stg cfg classes seg ws s ws' H).
+  - exact (headers_add_segment rt stg cfg classes seg ws s ws' H).
+Qed.
+
+Lemma generated_name_not_special sty s :
+  style_name sty s -> s <> "__romPos"%string /\ s <> "."%string /\ s <> "_gp"%string.
+Proof. intro H. repeat split; apply (style_name_neq sty s _ H); reflexivity. Qed.
